@@ -12,2564 +12,1265 @@ Definition show_fres (r : fres) : string :=
   end.
 Definition check (rs : list rune) : string := digest (show_fres (format_res rs)).
 Definition full (rs : list rune) : string := show_fres (format_res rs).
-Eval vm_compute in ("<<<M727>>>" ++ check (runes_of_ascii "packet lengthOf { @leftPad
+Eval vm_compute in ("<<<M1443>>>" ++ check (runes_of_ascii "// top
+options // c0
+{ // c1
+LittleEndian
+    // c2
+= true // c4a
+  // c4b
+; // c5a
+  // c5b
+StringPrefixLenType =
+    // c7
+u64 // c8
+; // c9a
+  // c9b
+ArrayPrefixLenType // c10a
+  // c10b
+= u8 ;
+    // c13
+FixedStringPadChar // c14
+= // c15a
+  // c15b
+'0' // c16
+; // c17
+} packet Reject // c20a
+  // c20b
+{ // c21a
+  // c21b
+i32 // c22
+Ref ,
+    // c24
+repeat // c25
+f64 // c26a
+  // c26b
+OrderId ,
+    // c28
+repeat // c29a
+  // c29b
+InNote12 // c30a
+  // c30b
+{
+    // c31
+u8
+    // c32
+pad0 // c33a
+  // c33b
+,
+    // c34
+} , @leftPad // c37
+( // c38
+' ' // c39
+) // c40a
+  // c40b
+char[ // c41
+6 // c42
+] // c43
+count
+    // c44
+, // c45a
+  // c45b
+}
+    // c46
+packet Logout { // c49
+zchar[ // c50
+6 // c51a
+  // c51b
+]
+    // c52
+Tail // c53a
+  // c53b
+,
+    // c54
+repeat // c55
+string // c56a
+  // c56b
+venue // c57a
+  // c57b
+,
+    // c58
+} // c59a
+  // c59b
+packet // c60
+Cancel // c61a
+  // c61b
+{ // c62a
+  // c62b
+u64
+    // c63
+count // c64a
+  // c64b
+,
+    // c65
+repeat char[
+    // c67
+5
+    // c68
+] // c69a
+  // c69b
+lastPx // c70
+, // c71a
+  // c71b
+i64 Tail // c73
+,
+    // c74
+repeat
+    // c75
+InF140 { // c77a
+  // c77b
+repeat Logout // c79
+, // c80
+repeat Reject // c82
+, // c83a
+  // c83b
+} // c84a
+  // c84b
+, // c85
+}
+    // c86
+root
+    // c87
+packet
+    // c88
+Trade // c89
+{ repeat InMsgkind39 { // c93a
+  // c93b
+repeat // c94
+Reject // c95
+,
+    // c96
+char[ // c97
+4
+    // c98
+] // c99a
+  // c99b
+Px // c100
+, } // c102
+, // c103a
+  // c103b
+string // c104
+Acct
+    // c105
+, uint16 // c107a
+  // c107b
+price , // c109a
+  // c109b
+f32 // c110a
+  // c110b
+OrderId
+    // c111
+, // c112
+u16 x , u16 // c116a
+  // c116b
+clOrdID
+    // c117
+@lengthOf( // c118a
+  // c118b
+Body // c119a
+  // c119b
+) // c120a
+  // c120b
+,
+    // c121
+match // c122a
+  // c122b
+x // c123
+as Body // c125a
+  // c125b
+{ 178
+    // c127
+: // c128a
+  // c128b
+Logout
+    // c129
+,
+    // c130
+13 : // c132a
+  // c132b
+Cancel // c133a
+  // c133b
+, // c134a
+  // c134b
+174 // c135
+: // c136
+Reject , // c138a
+  // c138b
+} // c139a
+  // c139b
+, // c140
+u16 // c141
+Flags // c142a
+  // c142b
+@calculatedFrom(
+    // c143
+""CRC32"" ) // c145
+,
+    // c146
+} ")).
+Eval vm_compute in ("<<<M103>>>" ++ check (runes_of_ascii "packet
+trueish {
+@calculatedFrom(	"""" ) u
+    @lengthOf( a1
+) ,
+} options //	t
+{
+    trueish =
+42 }
+options { //	t
+}packet Foo {match matchKey
+as body	{
+    // `tick` ""quote"" 'q'
+    [4294967296 ]	: Packet , 00 : A ,
+    } , @calculatedFrom( ""x y"" ) // " ++ [27880; 37322]%N ++ runes_of_ascii "
+@lengthOf(	a1)
+    repeat f64	rootA , } packet len{ @calculatedFrom( ""// no comment"") string T @lengthOf(
+f32a )
+    , float32 chars
+    , @rightPad ( ' ' ) repeat chars{ string A , string
+i64_ `line1
+line2`
+,
+float32
+    //
+    i8i8 ,uint64
+    /// triple
+    matchKey @calculatedFrom( ""abc"" )
+/// triple
+// `tick` ""quote"" 'q'
+`" ++ [233]%N ++ runes_of_ascii "` , } , A
+    `a\` ,
+@tag( 00
+)
+    @tag( 0123456789 )
+    @tag( 1	)
+u128 {i64_
+    {
+// c
+// trailing space 
+BodyLength , i64 u
+`{ , }` , match
+    Z9_
+    as
+chars /// triple
+{ ["""" ] : // `tick` ""quote"" 'q'
+float , [ 0123456789  , 42
+    , 3 ,
+    //	t
+    10  , 10 ]
+// a // b
+/// triple
+: stringy , ""1"" :trueish , // packet A { u8 x, }
+""packet"" : u128 [
+""x y"" ,7 ] : A
+} ,
+    int32	a1 ,} , rootA
+//x
+/// triple
+`doc` ,
+//x
+// `tick` ""quote"" 'q'
+} , @rightPad ( ' ' ) repeat options1  { int
+    @calculatedFrom( ""packet"" ) , // " ++ [128512]%N ++ runes_of_ascii " emoji
+} , repeat char[65535]
+    falsey
+    // packet A { u8 x, }
+    , @rightPad ( ) repeat char[] i8i8,
+repeat calculatedFrom  msg_type ,@rightPad (	) @tag(
+65535 ) repeat calculatedFrom crc , } 	 ")).
+Eval vm_compute in ("<<<M1617>>>" ++ check (runes_of_ascii "// top
+options {
+    // c1
+    StringPrefixLenType = u16;
+    // c5
+    ArrayPrefixLenType = u32;
+    FixedStringPadFromLeft = false;// c13a
+    // c13b
+    FixedStringPadChar = '0';// c17
+}
+
+// c18
+packet Logout {
+    // c21
+    f64 f1,// c24
+    i16 Note,// c27
+    @rightPad('\x00')
+    char[11] Flags,
+    // c36
+}// c37
+
+packet Cancel {
+    // c40
+    float64 msgKind,
+    // c43
+}// c44
+
+packet Reject {
+    // c47
+    InQty43 {
+        // c49
+        float32 sym,// c52
+        char[10] Tail,// c57a
+        // c57b
+        uint8 venue,// c60
+        uint16 f1,
+        // c63
+        char[9] Acct,// c68
+    },// c70
+}// c71a
+
+// c71b
+packet Trade {
+    // c74
+    char[] x,// c77a
+    // c77b
+    zchar[6] Note,// c82a
+    // c82b
+    repeat Reject,
+}
+
+root packet Order {
+    // c90a
+    // c90b
+    Cancel,
+    Logout,// c94a
+    // c94b
+    u64 Acct,
+    u32 OrderId,
+    match OrderId as Body {
+        [127, 70] : Reject,
+        177 : Trade,
+        // c117
+        58 : Logout,
+        75 : Cancel,
+        // c125
+    },
+    u32 Tail @calculatedFrom(""CRC32""),// c133
+}// c134")).
+Eval vm_compute in ("<<<M1462>>>" ++ check (runes_of_ascii "// top
+options // c0a
+  // c0b
+{ // c1a
+  // c1b
+LittleEndian // c2
+= false ; // c5a
+  // c5b
+StringPrefixLenType // c6a
+  // c6b
+= // c7
+u8 // c8
+; ArrayPrefixLenType // c10a
+  // c10b
+= u16 // c12
+; FixedStringPadFromLeft =
+    // c15
+false // c16
+; // c17
+} // c18
+packet
+    // c19
+Heartbeat // c20
+{
+    // c21
+u8 // c22a
+  // c22b
+seqNo
+    // c23
+,
+    // c24
+@rightPad ( '\x00' ) // c28
+char[ 8
+    // c30
+] x // c32
+, } root // c35
+packet
+    // c36
+Trade
+    // c37
+{
+    // c38
+repeat
+    // c39
+Heartbeat , // c41a
+  // c41b
+float32 // c42
+OrderId
+    // c43
+, i64 // c45
+Acct // c46
+, // c47a
+  // c47b
+u16
+    // c48
+Qty , u16
+    // c51
+clOrdID // c52a
+  // c52b
+, match
+    // c54
+clOrdID as // c56
+Body
+    // c57
+{ 131 :
+    // c60
+Heartbeat // c61a
+  // c61b
+, // c62
+} // c63
+, // c64a
+  // c64b
+u16 // c65a
+  // c65b
+sym // c66a
+  // c66b
+@calculatedFrom( ""CRC32""
+    // c68
+) // c69a
+  // c69b
+, // c70a
+  // c70b
+}
+    // c71
+")).
+Eval vm_compute in ("<<<M1529>>>" ++ check (runes_of_ascii "
+
+  options
+
+{
+	LittleEndian
+=
+	true
+
+; 
+StringPrefixLenType= u64; ArrayPrefixLenType
+    =  u8 ;
+	FixedStringPadChar
+
+= '0'
+;
+    } packet
+
+Reject
+
+{ i32 Ref
+    ,repeat
+    f64
+    OrderId , repeat
+
+    InNote12  {
+
+u8 
+pad0  ,
+    }
+	,@leftPad 
 ( ' '
     )
-// c
-// packet A { u8 x, }
-match len as As {
-""1""
-: leftPad
-,255
-: Pad	""1"" :
-x // a // b
-,4294967296:  u128
-, // " ++ [27880; 37322]%N ++ runes_of_ascii "
-}
-    , @rightPad( ) crc  `line1
-line2`, @lengthOf( leftPad
-    )
-@calculatedFrom( ""a\\"" ) repeat char[] _x`a\`	,repeatCount asx , repeat u	{match falsey as i8i8
-    {
-    //x
-    """ ++ [233]%N ++ runes_of_ascii "t" ++ [233]%N ++ runes_of_ascii """ : float  ,
-[ ""\n""] : _x
-    , ""CRC32""// a // b
-:
-roots
-, 7 :	matchKey
-""packet"" : Foo
-, ""1"":
-int , } ,
-}
-    ,
-    i8 x `" ++ [233]%N ++ runes_of_ascii "`	,@tag( 3
-    ) f32a ,
-    repeat
-    lengthOf {
-    //x
-    int@lengthOf(
-/// triple
-// " ++ [128512]%N ++ runes_of_ascii " emoji
-calculatedFrom )	,int64 falsey	`doc`
-    ,},// @lengthOf(
-@calculatedFrom( ""x y""
-// @lengthOf(
-//	t
-) //	t
-match x_y_z as
-    //
-    Z9_ {1 :
-    lengthOf , 255
-: u128
-, ""it's"" : Z9_  ,
-    // @lengthOf(
-    42:
-len }
-    , match
-calculatedFrom as crc  {	[ 0123456789 , 255 , ""packet"",""it's"" ,
-0, ""\n"" ,1
-    ,
-    0123456789
-] : calculatedFrom, 65535: _x ""CRC32""
-    // a // b
-    :
-tag ,[//	t
-""`tick`""
-    // @lengthOf(
-    ] : T
-    , [ ""it's"" , ""it's""
-// packet A { u8 x, }
-// `tick` ""quote"" 'q'
-, 0123456789 , """ ++ [128512]%N ++ runes_of_ascii """// " ++ [128512]%N ++ runes_of_ascii " emoji
-,
-4294967296, ""`tick`"" ] :
-pack ,
-} , }
-    packet
-//x
-// packet A { u8 x, }
-u8x { //x
-} root
-// " ++ [27880; 37322]%N ++ runes_of_ascii "
-// @lengthOf(
-packet
-string_ { @tag( 3) char[]crc, @rightPad
-    ( '\x00' )@leftPad// @lengthOf(
-( ' ' )repeat char[ 42 ]Foo  ,
-    @calculatedFrom( //
-""{,}""
-)
-    string
-stringy @lengthOf( chars	)  ,@tag(
-1 // packet A { u8 x, }
-)// " ++ [128512]%N ++ runes_of_ascii " emoji
-zchar[ 007 ] charz`two words`,
-    repeat
-    msg_type
-{ char uint8x
-    `line1
-line2` , char[ /// triple
-00 ] // trailing space 
-options1 @calculatedFrom( """ ++ [233]%N ++ runes_of_ascii "t" ++ [233]%N ++ runes_of_ascii """ ) `say ""hi""` ,
-    matchKey @calculatedFrom(""1""
-    ), //
-} //x
-, @tag( 0123456789
-    )
-    //	t
-    zchar[
-00
-//
-// a // b
-]
-    // packet A { u8 x, }
-    lengthOf , @tag( 3 )
-    falsey As , } packet
-lengthOf{	chars { Packet
-`tab	here`, metadata ,
-    repeat zchar ,	} ,match matchKey  as roots { ""x y"" :  float }
-    // packet A { u8 x, }
-    , @tag(1 ) @tag( 4294967296)
-T
-{ int32
-    // `tick` ""quote"" 'q'
-    string_ `a\`
-    ,i8
-    // a // b
-    Pad @calculatedFrom( ""a\""b""
-) // packet A { u8 x, }
-`u8 x,`
-// a // b
-// trailing space 
-, repeat char[]
-    //x
-    zchar `" ++ [233]%N ++ runes_of_ascii "` , u8x { repeat char[]x_y_z ,
-} , } , @rightPad
-( '\x00' )
-repeat zchar[// trailing space 
-7  ] // @lengthOf(
-i8i8//	t
-, }")).
-Eval vm_compute in ("<<<M891>>>" ++ check (runes_of_ascii "packet o
-    {
-    i64 Packet `
-`, } root packet falsey { i8 zchar @lengthOf(i64_ )
-    // trailing space 
-    , @tag( 255 )
-    char[ 10]// c
-i64_@calculatedFrom(""\n"" ) `u8 x,`	,
-@leftPad(	' ' ) i64 uint8x ,
-repeat
-u8x
-    {// " ++ [27880; 37322]%N ++ runes_of_ascii "
-rootA
-{ MetaDataX
-    @lengthOf( // `tick` ""quote"" 'q'
-trueish
-)	, T@lengthOf(
-    f32a) ,
-    // a // b
-    repeat
-    stringy,} , pack  @calculatedFrom(
-""it's"" ) ,
-    i16
-    metadata
-`u8 x,` , repeat
-int
-    ,} ,
-    // @lengthOf(
-    } packet
-    // " ++ [128512]%N ++ runes_of_ascii " emoji
-    body { leftPad { match u8x
-    as
-i64_
-    { // @lengthOf(
-[ 007 ,0 ] :
-    a1 ,[ 42 ]:	A  ,	} ,
-match	x as Z9_ { 007
-    :MetaDataX
-    ,
-0
-    //	t
-    :leftPad ,""" ++ [128512]%N ++ runes_of_ascii """ :
-    MetaDataX ,
-""abc"" :uint8x ,007: trueish,
-    // c
-    } , } ,
-zchar @calculatedFrom( ""// no comment"")  ,
-trueish	@lengthOf( u ) `line1
-line2` , @calculatedFrom( ""abc"" ) char[]
-    /// triple
-    len /// triple
-`tab	here`
-, float64 zchar
-`line1
-line2`
-, match i64_ //
-as body
-{[ // @lengthOf(
-0123456789
-    // c
-    ]
-    : float 10:  Foo ,
-[ ""CRC32""
-]: Foo ""x y"" :metadata , [ 10 ,	255 , ""abc"" ,0123456789, //x
-0 , 1 ,
-7 ]
-:	f32a, } , @calculatedFrom(""{,}"" )
-    @lengthOf(
-    len // a // b
-)
-    match x_y_z as uint8x {
-""\" ++ [233]%N ++ runes_of_ascii """:T ,  } , o @lengthOf(// trailing space 
-body )
-    ,	u64 //
-o @calculatedFrom(
-""a	b""
-    ) // c
-`say ""hi""`
-,repeat  string Header
-    , }packet
-zchar {
-// `tick` ""quote"" 'q'
-// packet A { u8 x, }
-@rightPad ( // " ++ [27880; 37322]%N ++ runes_of_ascii "
-'0'
-//	t
-/// triple
-)
-repeat
-zchar[ 3]  o `doc` , zchar[
-    // packet A { u8 x, }
-    4294967296 ] x_y_z , @calculatedFrom(""{,}""
-    /// triple
-    )	@calculatedFrom(	""" ++ [28040; 24687]%N ++ runes_of_ascii """ ) float32
-    A @lengthOf(Pad ),
-    @tag(
-    7 )
-    // `tick` ""quote"" 'q'
-    Packet
-    @calculatedFrom(
-    ""// no comment""
-    )
-,zchar[ 10 ]
-asx
-    // " ++ [27880; 37322]%N ++ runes_of_ascii "
-    `` /// triple
-, tag len `tab	here`,	}
-")).
-Eval vm_compute in ("<<<M4327>>>" ++ check (runes_of_ascii "packet rootA {
-    @rightPad('0')
-    string leftPad @calculatedFrom(""" ++ [233]%N ++ runes_of_ascii "t" ++ [233]%N ++ runes_of_ascii """) `two words`,
-}
+	char[
+6 ]
+count,
 
-packet A {
-    @calculatedFrom(""it's"")
-    char[] msg_type @lengthOf(asx) `u8 x,`,
-    charz o,
-    @calculatedFrom(""`tick`"")
-    @lengthOf(crc)
-    //
-    match falsey as metadata {
-        // @lengthOf(
-        [65535, 65535] : u8x,
-        ""\n"" : int,
-        007 : MetaDataX,
-        ""it's"" : f32a,
-        0 : i8i8,
-        [65535, 255] : u8x,
-    },
-}
-
-packet charz {
-    string MetaDataX,
-    // packet A { u8 x, }
-    repeat char[] _x,
-    @rightPad()
-    match pack as string_ {
-        ""a	b"" : trueish,
-        ""it's"" : A,
-        10 : T,
-        0 : msg_type,
-        [
-            7, 1, ""1"", 00, 10,
-            4294967296, 10
-        ] : Pad,
-    },// a // b
-    A {
-        repeat u128 {
-            char[00] a1 `line1
-            line2`,//x
-            uint8x rootA `say ""hi""`,
-            match uint8x as i64_ {
-                """ ++ [28040; 24687]%N ++ runes_of_ascii """ : msg_type,
-                ""\n"" : i8i8,
-            },
-            i64 x_y_z `{ , }`,
-        },
-        match zchar as Header {
-            3 : pack,
-            ""x y"" : packetx,
-            //x
-            255 : u8x,
-            ""abc"" : Z9_,
-            ""x y"" : msg_type,
-            [""a\\"", 10] : o,
-        },
-        char[0] leftPad `{ , }`,
-        string stringy @calculatedFrom(""`tick`"") `u8 x,`,
-    },
-    repeat zchar[00] Packet,
-    repeat u16 tag,
-    @tag(65535)
-    repeat uint64 MetaDataX,
-}
-
-MetaData pack {
-}")).
-Eval vm_compute in ("<<<M1405>>>" ++ check (runes_of_ascii "options {
-    StringPrefixLenType = u16;
-    ArrayPrefixLenType = u16;
-}
-
-packet SampleBinary {
-    uint16 MsgType `" ++ [28040; 24687; 31867; 22411]%N ++ runes_of_ascii "`,
-    u16 BodyLenght @lengthOf(Body) `" ++ [28040; 24687; 20307; 38271; 24230]%N ++ runes_of_ascii "`,
-    match MsgType as Body {
-        1 : Logon,
-        2 : Logout,
-        3 : Heartbeat,
-        4 : RiskControlRequest,
-        5 : RiskControlResponse,
-    },
-    @calculatedFrom(""CRC32"")
-    u32 Ckecksum `" ++ [26657; 39564; 21644]%N ++ runes_of_ascii "`,
-}
-
-packet Logon {
-    @leftPad('0')
-    char[10] UserName `" ++ [29992; 25143; 21517]%N ++ runes_of_ascii "`,
-    string Password `" ++ [23494; 30721]%N ++ runes_of_ascii "`,
-    uint64 ClientId `" ++ [23458; 25143; 31471]%N ++ runes_of_ascii "ID`,
-    u16 HeartbeatInterval `" ++ [24515; 36339; 38388; 38548]%N ++ runes_of_ascii "`,
-}
-
-packet Logout {
-    @rightPad('0')
-    char[10] UserName `" ++ [29992; 25143; 21517]%N ++ runes_of_ascii "`,
-    uint64 ClientId `" ++ [23458; 25143; 31471]%N ++ runes_of_ascii "ID`,
-}
-
-packet Heartbeat {
-}
-
-packet RiskControlRequest {
-    string UniqueOrderId `" ++ [21807; 19968; 35746; 21333; 21495]%N ++ runes_of_ascii "`,
-    char[16] ClOrdID `" ++ [23458; 25143; 35746; 21333; 21495]%N ++ runes_of_ascii "`,
-    char[3] MarketID `" ++ [24066; 22330]%N ++ runes_of_ascii "id`,
-    char[12] SecurityID `" ++ [35777; 21048; 20195; 30721]%N ++ runes_of_ascii "`,
-    char Side `" ++ [20080; 21334; 26041; 21521]%N ++ runes_of_ascii "`,
-    char OrderType `" ++ [35746; 21333; 31867; 22411]%N ++ runes_of_ascii "`,
-    u64 Price `" ++ [20215; 26684]%N ++ runes_of_ascii "`,
-    u32 Qty `" ++ [25968; 37327]%N ++ runes_of_ascii "`,
-    repeat string ExtraInfo `" ++ [38468; 21152; 20449; 24687]%N ++ runes_of_ascii "`,
-    repeat SubOrder {
-        char[16] ClOrdID `" ++ [23376; 35746; 21333; 21495]%N ++ runes_of_ascii "`,
-        u64 Price `" ++ [23376; 35746; 21333; 20215; 26684]%N ++ runes_of_ascii "`,
-        u32 Qty `" ++ [23376; 35746; 21333; 25968; 37327]%N ++ runes_of_ascii "`,
-    },
-}
-
-packet RiskControlResponse {
-    string UniqueOrderId `" ++ [21807; 19968; 35746; 21333; 21495]%N ++ runes_of_ascii "`,
-    i32 Status `" ++ [29366; 24577]%N ++ runes_of_ascii "`,
-    string Msg `" ++ [32467; 26524; 20449; 24687]%N ++ runes_of_ascii "`,
-    repeat Detail,
-}
-
-packet Detail {
-    string RuleName `" ++ [35268; 21017; 21517; 31216]%N ++ runes_of_ascii "`,
-    u16 Code `" ++ [21407; 22240; 20195; 30721]%N ++ runes_of_ascii "`,
-}")).
-Eval vm_compute in ("<<<M787>>>" ++ check (runes_of_ascii "  packet
-    pack
-    {
-    BodyLength
-    , @tag(0) repeat Z9_ options1 ,int32 packetx @calculatedFrom( ""it's"") ``
-, @rightPad
-(
-) uint16 int
-@calculatedFrom(""" ++ [233]%N ++ runes_of_ascii "t" ++ [233]%N ++ runes_of_ascii """ )  `a\`
-,u32 Header // `tick` ""quote"" 'q'
-@calculatedFrom(// c
-""\" ++ [233]%N ++ runes_of_ascii """) `" ++ [233]%N ++ runes_of_ascii "` , //x
-len
-float `two words` // " ++ [27880; 37322]%N ++ runes_of_ascii "
-, x ,
-repeat//x
-zchar[ 0] x_y_z
-, }// packet A { u8 x, }
-packet
-    options1 { match x_y_z as u128
-    {
-    [""a\\"" ] : roots , [//x
-10
-, ""abc""] :
-int , ""1"" :// c
-i64_  ,7
-:
-    As ,""{,}""
-:
-    i8i8	,42  :
-asx , } // packet A { u8 x, }
-, } MetaData  rootA { Header T`{ , }` , }  root
-// `tick` ""quote"" 'q'
-// `tick` ""quote"" 'q'
-packet len{  u8
-// trailing space 
-// `tick` ""quote"" 'q'
-metadata @lengthOf(
-// `tick` ""quote"" 'q'
-// " ++ [128512]%N ++ runes_of_ascii " emoji
-Packet)
-, @calculatedFrom( ""a	b"" ) i8	i64_  `tab	here` , uint16 i64_	`u8 x,`  ,@calculatedFrom( ""`tick`"" ) repeat uint8 T
-`u8 x,` , matchKey
-{  match As
-    as roots { ""\n"" :
-a1 // " ++ [128512]%N ++ runes_of_ascii " emoji
-} ,
-chars @lengthOf( asx ) ,
-}
-, repeat
-i8i8  { char[] Header `a\` ,o options1
-// a // b
-// trailing space 
-, string
-    Packet `it's` // " ++ [27880; 37322]%N ++ runes_of_ascii "
-,
-    // @lengthOf(
-    } , } MetaData repeatCount { char[] Header`two words` , int16 f32a
-    `u8 x,`  , tag zchar ,	Packet x `it's` ,} // packet A { u8 x, }")).
-Eval vm_compute in ("<<<M1179>>>" ++ check (runes_of_ascii "MetaData crc
-// trailing space 
-// packet A { u8 x, }
-{Z9_  metadata
-`u8 x,`, }
-    packet // packet A { u8 x, }
-matchKey
-{	leftPad , string x ,
-    // " ++ [27880; 37322]%N ++ runes_of_ascii "
-    } packet x	{ match msg_type
-as MetaDataX//
-{ // @lengthOf(
-00
-:  roots , } , char[ 255
-]
-    // packet A { u8 x, }
-    falsey `" ++ [28040; 24687; 31867; 22411]%N ++ runes_of_ascii "`
-    //	t
-    , @lengthOf(
-    Logon	) @tag(
-42 ) @lengthOf( Foo
-)
-    repeat//	t
-char[ 1	] u,
-// packet A { u8 x, }
-//	t
-i8 chars
-@calculatedFrom( ""a\""b""
-// @lengthOf(
-// trailing space 
-),	@calculatedFrom(""" ++ [128512]%N ++ runes_of_ascii """ /// triple
-) @calculatedFrom( ""`tick`""
-) f64 Logon
-    ,
-@lengthOf(  calculatedFrom
-    ) //
-repeatCount
+} packet
+    Logout
 {
-    repeat Packet`two words` , match  i64_ as
-charz{""a\\"" :
-int[	""\" ++ [233]%N ++ runes_of_ascii """ , 0123456789
-    , """ ++ [28040; 24687]%N ++ runes_of_ascii """
-]
-    :
-Pad
-, 1: As,""CRC32""
-:	Header ,
-},  char[ 007 // packet A { u8 x, }
-]
-tag
-`doc` , repeat As`" ++ [233]%N ++ runes_of_ascii "` , // c
-}
-,
-    MetaDataX @calculatedFrom("""")`line1
-line2`, // c
-} options{ _x=false
-As = zchar[ 65535
-]
-BodyLength= int64 o
-=	false ;
-calculatedFrom
-    =	'0' ;
-    } root	packet Packet { // @lengthOf(
-falsey Packet, @lengthOf(
-    BodyLength ) @lengthOf(uint8x
-) @rightPad (
-) string float	`// not a comment`, } 	 ")).
-Eval vm_compute in ("<<<M196>>>" ++ check (runes_of_ascii "packet
-a1
-    { @rightPad
-    ( ' '  ) repeat	a1 ,
-    //	t
-    repeat
-float32 i8i8	`two words`, @lengthOf( A ) float zchar ,@rightPad(
-'0'
-)	uint32 o `doc`
-, @calculatedFrom( ""packet""
-    )	repeat
-asx `crlf
-line`//	t
-, @tag( 007 )
-@calculatedFrom(	""CRC32""
-)repeat uint64 A `line1
-line2` , @leftPad ( '\x00'
-)
-// packet A { u8 x, }
-//x
-string stringy `` , @rightPad( '\x00' ) @tag( 255 /// triple
-)
-body
-    @lengthOf( Z9_	)
-,match
-x_y_z
-// packet A { u8 x, }
-// " ++ [128512]%N ++ runes_of_ascii " emoji
-as
-falsey{""\" ++ [233]%N ++ runes_of_ascii """: options1
-, } ,Logon falsey
-// c
-// " ++ [27880; 37322]%N ++ runes_of_ascii "
-`say ""hi""`
-, } packet// " ++ [128512]%N ++ runes_of_ascii " emoji
-Foo { }options {
-// @lengthOf(
-// `tick` ""quote"" 'q'
-f32a
-=	""a\""b"" ;
-float= '0' ;  calculatedFrom
-    = 65535
-    ; msg_type= '0';
-    // trailing space 
-    A = """"
-} root packet
-string_ {
-match float as u128{ [ ""\n""
-]	:// trailing space 
-Packet , }
-    ,} packet charz { lengthOf @calculatedFrom(
-    // " ++ [128512]%N ++ runes_of_ascii " emoji
-    """ ++ [28040; 24687]%N ++ runes_of_ascii """)
-,
-    @leftPad
-( ' ' ) repeat chars`" ++ [28040; 24687; 31867; 22411]%N ++ runes_of_ascii "`, match leftPad
-    as a1 {
-    ""`tick`"" :
-    string_ // c
-,
-// c
-// c
-10
-:
-    string_, 4294967296// a // b
-: Foo
-, } , }")).
-Eval vm_compute in ("<<<M165>>>" ++ check (runes_of_ascii "packet uint8x { @lengthOf( Pad )
-    Foo ,} root packet Foo  {
-char[] i64_
-    @calculatedFrom( ""a	b"" ) `u8 x,`
-    // @lengthOf(
-    , zchar[
-    // trailing space 
-    3]
-    tag
-@lengthOf( tag ), @lengthOf(	falsey) options1
-//x
-/// triple
-@lengthOf(  repeatCount ) ,
-string
-matchKey `crlf
-line` ,} packet metadata { //	t
-uint32
-    i8i8 , }
-root packet
-Header {
-@lengthOf( _x ) @lengthOf(
-A )metadata
-    tag
-    // trailing space 
-    `
-` ,x_y_z `tab	here`
-    ,
-    Pad // " ++ [128512]%N ++ runes_of_ascii " emoji
-, @calculatedFrom(
-    """ ++ [128512]%N ++ runes_of_ascii """ )
-    //x
-    repeat string f32a`crlf
-line`, string packetx	@calculatedFrom( ""a\\""
-)
-    , }  packet
-    // packet A { u8 x, }
-    u8x { pack, @calculatedFrom( ""// no comment"" // `tick` ""quote"" 'q'
-)packetx, match options1// trailing space 
-as chars { ""1"" :
-Logon
-// a // b
-// a // b
-, 7 :
-trueish } ,
-match asx  as
-    /// triple
-    Logon {	[ 3 ]: _x , [
-    ""// no comment"" , 7 , """ ++ [233]%N ++ runes_of_ascii "t" ++ [233]%N ++ runes_of_ascii """  ,""it's""
-,1 ]
-    : i8i8 // " ++ [27880; 37322]%N ++ runes_of_ascii "
-[
-/// triple
-// " ++ [27880; 37322]%N ++ runes_of_ascii "
-""1"" ] : T , } , } // a // b")).
-Eval vm_compute in ("<<<M3534>>>" ++ check (runes_of_ascii "
+	zchar[
+6
 
-  options  {
-    StringPrefixLenType
-=
-    u32
-
-    ; ArrayPrefixLenType
-= 
-u8 ;
-FixedStringPadFromLeft
-
-= false;
-
-    } packet  Logon { 
-i8
-venue ,int16
-	f1, zchar[ 8
-] Acct ,
-repeat	InNote16  {
-	InQty73	{float32
-    tag7 ,
-	} , f32
-Acct
-, zchar[5]
-
-    sym ,
-    }	,
-    uint16 Side2
-    ,i32 lastPx
-
-    ,
-}  packet
-
-Fill
-    {  repeat 
-InOrderid15
-    {
-
-    zchar[
-	8
-
-    ] 
-sym , repeat
-
-    char[	2  ]
-
-    OrderId
-	, repeat Logon
-,	InQty82
-
-{	char[]	Tail  ,repeat
-
-Logon
-
-,
-float64
-
-    price, f64
-
-Side2
-
-, },
-    char[
-
-    12]venue
-,
-
-    char[
-
-    4 ]
-
-Px 
-,}
-
-    ,@rightPad
-
-    ('0'
-
-)
-
-char[  2  ]
-    venue ,
-
-InPrice99{  InAcct72 {
-
-    u8
-	pad0,	}  , u32
-OrderId, Logon
-
-    ,},  } root
-	packet
-
-Reject {
-zchar[  9 ] msgKind  ,  u32 
-venue  ,u16 seqNo@lengthOf(	Body
-) ,  match
-	venue as
-Body {
-    57
-
-:	Fill  ,
-    8
-	:Logon 
-,}
-    ,
-    u16
-	Tail	@calculatedFrom(
-
-""CRC32"" ),}
-")).
-Eval vm_compute in ("<<<M850>>>" ++ check (runes_of_ascii "packet Packet {
-match
-    a1
-    as calculatedFrom//
-{
-    // `tick` ""quote"" 'q'
-    00
-    : falsey""" ++ [233]%N ++ runes_of_ascii "t" ++ [233]%N ++ runes_of_ascii """ : string_ ,
-[	00 ] :o , ""it's"": u , //	t
-10 : BodyLength ""1"" : BodyLength
-, } ,}  root packet	calculatedFrom {  repeat
-    uint64
-    int `line1
-line2`
-,
-string rootA ``,
-    @lengthOf( i64_)leftPad@calculatedFrom( ""\" ++ [233]%N ++ runes_of_ascii """ )	`line1
-line2`  ,uint8 x_y_z // `tick` ""quote"" 'q'
-`" ++ [28040; 24687; 31867; 22411]%N ++ runes_of_ascii "`
-, } options {}
-MetaData crc
-{ pack	asx`" ++ [233]%N ++ runes_of_ascii "` , }packet
-    rootA { @lengthOf( x_y_z )repeat T Pad
-// a // b
-// " ++ [128512]%N ++ runes_of_ascii " emoji
-, string
-len ,
-match float as matchKey { ""a\""b"" : x
-    //	t
-    ,
-007 :
-calculatedFrom
-,
-    255 :// @lengthOf(
-crc , }
-,int32
-//x
-//
-float ,@leftPad ( ' ' ) @lengthOf(
-    stringy)  @calculatedFrom( ""`tick`"" )
-    repeat
-    float {
-zchar[ 00 ] crc @calculatedFrom(
-    ""1""
-    )`// not a comment` ,
-    //x
-    string stringy`doc`, } , i16
-asx `doc` ,
-    // `tick` ""quote"" 'q'
-    }
-")).
-Eval vm_compute in ("<<<M1133>>>" ++ check (runes_of_ascii "  packet
-    stringy	{
-    @tag(//	t
-1) Logon @lengthOf( roots
-// @lengthOf(
-// " ++ [27880; 37322]%N ++ runes_of_ascii "
-) ,
-    @tag(4294967296
-) repeat
-leftPad
-    { match	metadata as // trailing space 
-u8x {
-4294967296: // " ++ [128512]%N ++ runes_of_ascii " emoji
-pack ""CRC32""	: f32a ,
-}  , } ,
-match Logon
-as float{ [ ""// no comment"" // packet A { u8 x, }
-] :
-    roots 0123456789 :Pad , } , repeat Foo
-//
-// c
-{ matchKey { zchar[ 4294967296] repeatCount
-    `{ , }`	, }
-,uint64 int @lengthOf( float ) ,
-match // packet A { u8 x, }
-asx as trueish { ""// no comment"" //	t
-:
-    lengthOf	,10
-    :As // `tick` ""quote"" 'q'
-, 3
-:
-calculatedFrom ,
-    [ 7 ,4294967296
-    ]
-:	leftPad,
-4294967296 :  BodyLength
-    ,} , },
-i8 Packet ,@calculatedFrom( """ ++ [128512]%N ++ runes_of_ascii """ )
-    Logon o , repeat u64
-asx , @calculatedFrom(
-""a\""b"" ) repeat
-    int8 MetaDataX ,
-@calculatedFrom( ""abc"" ) uint64 // trailing space 
-tag
-`line1
-line2`  ,	}
-")).
-Eval vm_compute in ("<<<M3689>>>" ++ check (runes_of_ascii "
-// `tick` ""quote"" 'q'
-		packet A	{ 
-	// `tick` ""quote"" 'q'
-    // c
-
-  repeat	lengthOf // " ++ [128512]%N ++ runes_of_ascii " emoji
-	{ As
-
-    metadata
-
-    ,
-match
-pack
-
-as  // @lengthOf(
-	As {
-    [
-7
-    ]
-
-    :  //x
-	int ,
-
-    ""it's""
-:i64_
-    , ""a\""b""
-: // " ++ [27880; 37322]%N ++ runes_of_ascii "
-		string_, 
-[
-
-    00 , 4294967296 
-,
-
-""{,}"" ,	""" ++ [233]%N ++ runes_of_ascii "t" ++ [233]%N ++ runes_of_ascii """
+]Tail
     ,
 
-    """ ++ [233]%N ++ runes_of_ascii "t" ++ [233]%N ++ runes_of_ascii """
-	,""abc""
-	,
-	1
-,
-1
-    ]
-:	Pad
-// @lengthOf(
-  }
-,leftPad x 
+repeat  string
 
-// @lengthOf(
-    	//x
-
-  `" ++ [28040; 24687; 31867; 22411]%N ++ runes_of_ascii "`
-
-,  char[	65535 ]metadata
-, 
-}
-	, }packet a1
-    {
-}packet 	 //x
-  pack
-
-    { int
-	{i64_ 
-x_y_z	, // " ++ [128512]%N ++ runes_of_ascii " emoji
-  u8x
-
-    `say ""hi""`
-,
-    f32
-A
-	`u8 x,`
-, }	,}
-root 
-packet	falsey
-
-{
-	@tag(255 )	repeat float64	Logon,	float64
-    Foo  @lengthOf( 
-float
-
-    )
-,
-}
-
-    options
-{
-
-    matchKey
-	// packet A { u8 x, }
-    =char[]
-;
-    tag = ' '
-
-    ; 
-i64_
-=
-""1""
-}
-
-")).
-Eval vm_compute in ("<<<M63>>>" ++ check (runes_of_ascii "// trailing space 
-options{
-    asx = """ ++ [233]%N ++ runes_of_ascii "t" ++ [233]%N ++ runes_of_ascii """ zchar = 7 i8i8=65535 ;	Pad =i8
-; } // a // b
-MetaData
-    string_  { //	t
-char[ 0 // packet A { u8 x, }
-]zchar ,// `tick` ""quote"" 'q'
-char[ 4294967296] msg_type ,
-u16
-MetaDataX `" ++ [233]%N ++ runes_of_ascii "`,} root packet Foo{	f64
-BodyLength
-@lengthOf(
-repeatCount ) ,
-repeat asx {
-char[ 00] stringy // `tick` ""quote"" 'q'
-@lengthOf( Foo)
-    ,  i8 string_,}
-    ,
-float64 i8i8 `say ""hi""` ,  @tag( 0 ) MetaDataX
-    {// " ++ [27880; 37322]%N ++ runes_of_ascii "
-repeat uint16 stringy
-,	repeat x_y_z , asx, } ,
-    @rightPad( '\x00' ) repeat
-    char[7
-] metadata
-// a // b
-// " ++ [27880; 37322]%N ++ runes_of_ascii "
-, i16 x
-, match falsey
-    as
-asx	{""a\""b""
-:
-    u ,} // @lengthOf(
-,// trailing space 
-@calculatedFrom(  """"//
-)
-match f32a
-as
-u8x {
-//x
-//
-""a\""b"":matchKey , } //
-,
-x `" ++ [233]%N ++ runes_of_ascii "`  ,char[
-65535 ]
-string_ `u8 x,` , }
-// c
-")).
-Eval vm_compute in ("<<<M3538>>>" ++ check (runes_of_ascii "options
-
-{	StringPrefixLenType = u16  ;ArrayPrefixLenType=u32;
-	FixedStringPadFromLeft
-	= false;  FixedStringPadChar = '0'  ;}
-
-    packet
-	Logout
-	{
-    f64
-
-f1	,i16
-
-    Note
-, @rightPad  ('\x00' )  char[
-
-    11	]	Flags,  }packet Cancel {float64
-
-msgKind
-,
-}packet
-Reject
-
-{
-InQty43
-
-    {
-    float32 sym
-, char[
-	10	]Tail
-,
-
-    uint8
 venue
-,uint16
-f1 
-,
 
-char[ 9
+, }	packet Cancel 
+{
+u64 count ,
+    repeat char[	5
 
     ] 
-Acct
-
-    ,
-}
-
-,	}
-
-packet
-	Trade {
-    char[] x
-
-,
-    zchar[ 
-6 ] 
-Note
-
-,
-repeat
-    Reject
-, }  root  packet Order	{
-	Cancel
-    ,Logout ,
-
-u64
-Acct
-    ,
-
-    u32 
-OrderId
-,  match	OrderId	as
-	Body
-{ [
-
-    127,70]: 
-Reject
-,
-
-    177
-	: Trade
-,
-    58 :
-    Logout, 75
-	:  Cancel,
-}
-
-,	u32
-
-Tail  @calculatedFrom(  ""CRC32"")
-,
-
-}")).
-Eval vm_compute in ("<<<M280>>>" ++ check (runes_of_ascii "options{
-    metadata
-= '0' int = 007 ; zchar
-// " ++ [27880; 37322]%N ++ runes_of_ascii "
-// `tick` ""quote"" 'q'
-=
-'\x00' ;
-    }
-    packet charz {
-@leftPad
-    ( '0'
-    ) @tag(
-42
-    // " ++ [128512]%N ++ runes_of_ascii " emoji
-    ) @calculatedFrom(
-    // " ++ [27880; 37322]%N ++ runes_of_ascii "
-    ""a\""b"" )char[]
-    packetx
-    @calculatedFrom(""\" ++ [233]%N ++ runes_of_ascii """
-    )`
-`
-,	match charz as msg_type  {
-//
-// trailing space 
-4294967296:
-o 0123456789: // packet A { u8 x, }
-trueish ,  ""// no comment"" : asx //x
-[ 65535 ,
-65535 ,
-    3,""a\""b""
-,	""a\\""	,""" ++ [28040; 24687]%N ++ runes_of_ascii """
-, 0123456789 ,
-    ""a	b"" ]
-: T
-,
-}
-, @rightPad (
-' '
-    )
-crc , repeat char[]
-    // packet A { u8 x, }
-    stringy  `a\` , }
-// " ++ [128512]%N ++ runes_of_ascii " emoji
-// " ++ [128512]%N ++ runes_of_ascii " emoji
-MetaData// c
-tag { uint64 metadata ,int64 trueish `{ , }`,
-uint32 a1 , f32 Packet `// not a comment` , }
-")).
-Eval vm_compute in ("<<<M3496>>>" ++ check (runes_of_ascii "// top
-packet // c0
-P1 {
-    // c2
-u8 // c3
-a // c4
-, // c5
-}
-    // c6
-packet P2 // c8
-{ // c9
-P1
-    // c10
-, // c11
-} packet // c13
-P3
-    // c14
-{ P2 // c16a
-  // c16b
-, P1
-    // c18
-, }
-    // c20
-packet // c21a
-  // c21b
-P4
-    // c22
-{ repeat P3
-    // c25
-,
-    // c26
-P2 // c27
-, // c28
-}
-    // c29
-root packet P5
-    // c32
-{ // c33
-P4 // c34a
-  // c34b
-, // c35a
-  // c35b
-P3 // c36
-, // c37
-P1 // c38
-, u8
-    // c40
-K , // c42
-match K // c44
-as
-    // c45
-Body // c46a
-  // c46b
-{ // c47
-4 : // c49
-P4 // c50
-, 3
-    // c52
-:
-    // c53
-P3 , 2
-    // c56
-: // c57a
-  // c57b
-P2
-    // c58
-, // c59
-1
-    // c60
-: // c61
-P1 , } // c64
-, // c65
-}
-    // c66
-")).
-Eval vm_compute in ("<<<M4482>>>" ++ check (runes_of_ascii "root packet packetx {
-    match x as repeatCount {
-        65535 : i8i8,
-        10 : x_y_z,
-        42 : packetx,
-        0123456789 : metadata,
-        [""\" ++ [233]%N ++ runes_of_ascii """] : x_y_z,
-        ""a\\"" : i8i8,
-    },
-    stringy {
-        // c
-        stringy i64_,
-        repeat Header As `two words`,
-    },
-    repeat char[007] u8x `line1
-    line2`,
-    @lengthOf(charz)
-    // packet A { u8 x, }
-    @leftPad('0')
-    int16 BodyLength,
-    repeat float32 repeatCount,
-    match trueish as MetaDataX {
-        ""a	b"" : x,
-    },
-    char[0] matchKey @lengthOf(float),
-    @lengthOf(i64_)
-    @lengthOf(repeatCount)
-    // " ++ [27880; 37322]%N ++ runes_of_ascii "
-    @lengthOf(float)
-    f32 Z9_,
-}")).
-Eval vm_compute in ("<<<M3542>>>" ++ check (runes_of_ascii "
-options 
-{
-LittleEndian
-= true ;FixedStringPadFromLeft=true	;
-	FixedStringPadChar
-	=
-
-    '0'  ; } packet  Trade 
-{
-
-    string
-
-clOrdID
-
-, char[]
-Px ,
-    u32
-x	,	}
-packet Reject 
-{int32 Side2
-    ,
-
-    repeat
-
-char[ 3 ]	clOrdID
+lastPx
+	, i64 Tail,
+	repeat InF140{
+repeat Logout
+	,repeat Reject
 	,
-i32 tag7
-
-,} 
-packet 
-Leg 
-{
-	}
+    } 
+,
+    }
     root
 
-packet
-	Quote {
-string Side2,
-    string lastPx ,
-    InSym58
-    {int16
+    packet
+Trade	{
 
-OrderId 
-,Reject	,
-    i8
-    Qty  ,
-    i64  venue ,f32	Note 
-, }
-    , char[]
-count 
-,zchar[	9
-] 
-price,
-u16 Qty,	match	Qty 
-as
-
-    Body
-
-    { 69
-	: Leg 
-,
-
-    48 : Trade
-    ,
-
-51:Reject
-
-    ,
-}, 
-u16 Acct @calculatedFrom(	""CRC32""
-
-),
-    } ")).
-Eval vm_compute in ("<<<M460>>>" ++ check (runes_of_ascii "  options// `tick` ""quote"" 'q'
-{}	MetaData falsey {	rootA
-calculatedFrom
-,float32 a1
-`u8 x,`
-    ,} packet MetaDataX
-//x
-// trailing space 
-{repeat
-roots Z9_ , int16
-    // `tick` ""quote"" 'q'
-    lengthOf
-`" ++ [233]%N ++ runes_of_ascii "` ,string MetaDataX
-,@lengthOf(
-    // @lengthOf(
-    rootA ) repeat options1
-{
-    Pad o `
-` ,// c
-} , @tag( 0	)
-@leftPad ( '\x00' ) char As
-    , uint16
-// " ++ [27880; 37322]%N ++ runes_of_ascii "
-// packet A { u8 x, }
-i64_ @lengthOf( i64_ ) `line1
-line2`
-    , @lengthOf( uint8x
-)
-Packet { int32 As , u64 falsey , repeat matchKey{ int i64_ ,
-}  , }, @tag( 3
-    )
-char[] options1 @lengthOf(	Header ) ,}")).
-Eval vm_compute in ("<<<M433>>>" ++ check (runes_of_ascii "options {
-    Packet = string } root
-    //	t
-    packet  trueish{ // a // b
-@calculatedFrom( ""packet""	) i64 trueish`// not a comment`
-,match MetaDataX as rootA
-// trailing space 
-// a // b
-{
-[ ""packet"" , """ ++ [28040; 24687]%N ++ runes_of_ascii """ ,// " ++ [27880; 37322]%N ++ runes_of_ascii "
-42] :uint8x 0123456789
-    // a // b
-    : int
-// trailing space 
-//x
-, }
-,
-    @rightPad ( '0' )match metadata as
-uint8x {
-255 :
-    len
-0
-:Packet,""a\""b"" :i8i8
-, } /// triple
-, match
-msg_type as repeatCount { ""CRC32"":
-x_y_z , [ ""a	b""
-, ""\" ++ [233]%N ++ runes_of_ascii """, 7, ""it's""
-,  1 , 7 ]
-:
-// c
-// trailing space 
-As // @lengthOf(
-,
-},
-    }
-
-")).
-Eval vm_compute in ("<<<M1273>>>" ++ check (runes_of_ascii "MetaData
-lengthOf
-{
-// " ++ [27880; 37322]%N ++ runes_of_ascii "
-// a // b
-zchar[ 4294967296 ]
-Pad,	As // " ++ [128512]%N ++ runes_of_ascii " emoji
-trueish`" ++ [28040; 24687; 31867; 22411]%N ++ runes_of_ascii "` , u32 calculatedFrom
-`it's` ,zchar[// " ++ [128512]%N ++ runes_of_ascii " emoji
-255
-    ]packetx ,	string
-asx , int16 string_ ``
-    ,
-    } packet	Header { @calculatedFrom(""" ++ [233]%N ++ runes_of_ascii "t" ++ [233]%N ++ runes_of_ascii """) uint8 //	t
-lengthOf
-,string
-    //	t
-    int @calculatedFrom(	""x y"") `" ++ [28040; 24687; 31867; 22411]%N ++ runes_of_ascii "` ,match
-stringy as tag { [
-10 ] :
-    trueish //x
-10// `tick` ""quote"" 'q'
-:  int
-    /// triple
-    ,
-    // @lengthOf(
-    ""abc"" : o
-}	, @tag(3 )
-    zchar[ // `tick` ""quote"" 'q'
-255 ] i64_ , }
-
-")).
-Eval vm_compute in ("<<<M3260>>>" ++ check (runes_of_ascii "// top
-MetaData // c0
-x_y_z // c1
-{ // c2
-char // c3
-body // c4
-, // c5
-f64 // c6
-i8i8 // c7
-`two words` // c8
-, // c9
-body // c10
-body // c11
-`" ++ [28040; 24687; 31867; 22411]%N ++ runes_of_ascii "` // c12
-, // c13
-} // c14
-root // c15
-packet // c16
-chars // c17
-{ // c18
-@lengthOf( // c19
-i64_ // c20
-) // c21
-chars // c22
-, // c23
-i8i8 // c24
-{ // c25
-falsey // c26
-@lengthOf( // c27
-stringy // c28
-) // c29
-`doc` // c30
-, // c31
-} // c32
-, // c33
-x // c34
-@lengthOf( // c35
-A // c36
-) // c37
-`crlf
-line` // c38
-, // c39
-} // c40
-")).
-Eval vm_compute in ("<<<M3285>>>" ++ check (runes_of_ascii "// top
-packet // c0
-trueish
-    // c1
-{ repeat // c3
-u32
-    // c4
-MetaDataX // c5a
-  // c5b
-`doc` // c6a
-  // c6b
-, Header
-    // c8
-{
-    // c9
-packetx // c10a
-  // c10b
-o `u8 x,` // c12a
-  // c12b
-, // c13a
-  // c13b
-}
-    // c14
-,
-    // c15
-@leftPad // c16
-( // c17a
-  // c17b
-'\x00' // c18a
-  // c18b
-) repeat char[
-    // c21
-0123456789
-    // c22
-] // c23
-repeatCount // c24
-,
-    // c25
-} // c26a
-  // c26b
-packet // c27
-Packet // c28
-{ // c29a
-  // c29b
-} ")).
-Eval vm_compute in ("<<<M805>>>" ++ check (runes_of_ascii "packet
-charz { @lengthOf(
-Z9_ ) @leftPad ( )	@tag(
-    7 )char[] metadata, repeat
-    float asx ,
-i8 a1 @calculatedFrom( ""a\\"" )  ,
-    leftPad
-@calculatedFrom( """ ++ [128512]%N ++ runes_of_ascii """ )	`doc` , uint16	trueish `u8 x,`, //x
-match
-    Logon as pack { 42	:  tag ,	0:falsey
-, [ 3 // c
-,	1
-//	t
-// " ++ [128512]%N ++ runes_of_ascii " emoji
-]: x_y_z // `tick` ""quote"" 'q'
-, }  ,
 repeat
-// `tick` ""quote"" 'q'
-// trailing space 
-leftPad{
-char[]
-    leftPad  `tab	here`
-    , char[ 42 // a // b
-] x_y_z, } , }")).
-Eval vm_compute in ("<<<M3650>>>" ++ check (runes_of_ascii "MetaData rootA {
-    char[42] body `tab	here`,
-    string pack,
-    zchar[65535] A `it's`,
-    i64_ Pad,
-}
-
-MetaData leftPad {
-    int16 u,
-}
-
-packet trueish {
-    @tag(00)
-    char[42] MetaDataX `crlf
-    line`,
-    @lengthOf(asx)
-    chars charz,
-    @rightPad('0')
-    @lengthOf(a1)
-    char[] Packet @calculatedFrom(""x y"") `crlf
-    line`,
-    len i8i8,
-    @rightPad('\x00')
-    options1 {
-        x @lengthOf(Z9_),
-    },
-}")).
-Eval vm_compute in ("<<<M3873>>>" ++ check (runes_of_ascii "packet u128 {
-    // @lengthOf(
-    @lengthOf(u8x)
-    char[] lengthOf `it's`,
-    @calculatedFrom(""it's"")
-    u16 metadata @calculatedFrom(""// no comment"") `// not a comment`,
-    @lengthOf(int)
-    // @lengthOf(
-    repeat trueish float,
-    // c
-    char[00] falsey,
-    repeat zchar[3] falsey,
-    @lengthOf(pack)
-    zchar[007] packetx @lengthOf(len),
-    repeat char u `tab	here`,
-    Pad @lengthOf(leftPad),
-}")).
-Eval vm_compute in ("<<<M1341>>>" ++ check (runes_of_ascii "packet // packet A { u8 x, }
-len {repeat crc// c
-, zchar[
-//	t
-// packet A { u8 x, }
-7
-]	roots `" ++ [233]%N ++ runes_of_ascii "`
-,u{string_ x_y_z ,
-} ,	}	root packet len {falsey
-    `a\`,	@rightPad
-(' '
-)	@rightPad  ( )
-// packet A { u8 x, }
-// `tick` ""quote"" 'q'
-@tag( 007
-) repeat float	{ msg_type
-    `" ++ [28040; 24687; 31867; 22411]%N ++ runes_of_ascii "`,int8 i8i8 `say ""hi""`
-, match
-    u128 as crc {
-    007
-//	t
-// @lengthOf(
-:tag , } ,char[]  As `it's`
-, } ,
-    }
-")).
-Eval vm_compute in ("<<<M1284>>>" ++ check (runes_of_ascii "root packet
-Foo{ uint8x @lengthOf(// " ++ [128512]%N ++ runes_of_ascii " emoji
-zchar ) // `tick` ""quote"" 'q'
-,body { repeat zchar[
-4294967296 ]
-    tag , }
-, int8 _x
-`u8 x,`
-    , char[]
-T , Foo
-, @rightPad ( ' '
-    // packet A { u8 x, }
-    )	repeat uint8 stringy
-    ,zchar[ 255] calculatedFrom@calculatedFrom(""x y"") `" ++ [28040; 24687; 31867; 22411]%N ++ runes_of_ascii "` , float32
-len @lengthOf(
-// " ++ [27880; 37322]%N ++ runes_of_ascii "
-// `tick` ""quote"" 'q'
-i8i8 ) , uint32
-    Pad ,
-    }")).
-Eval vm_compute in ("<<<M544>>>" ++ check (runes_of_ascii "
-MetaData msg_type {string u128`` , string uint8x,} options{
-//	t
-// " ++ [27880; 37322]%N ++ runes_of_ascii "
-uint8x =
-    // c
-    ""packet"";
-// `tick` ""quote"" 'q'
-// a // b
-}MetaData trueish //	t
-{MetaDataX int
+InMsgkind39 {repeat
+	Reject , 
+char[
+	4 ]	Px
 ,
-    int msg_type `{ , }` ,Foo lengthOf ,float32 calculatedFrom
-    ,
-int64 packetx,// " ++ [27880; 37322]%N ++ runes_of_ascii "
-uint32 Z9_ , }  MetaData string_
-    {
-uint32 string_ , }
-    packet BodyLength
-{	char[ 10] o
-, }")).
-Eval vm_compute in ("<<<M556>>>" ++ check (runes_of_ascii "packet len { i8
-    Pad @calculatedFrom( ""abc""
-)
-, } packet BodyLength{ repeat matchKey , @calculatedFrom(""1"" )
-    repeat uint32
-    // @lengthOf(
-    f32a
-`two words`, MetaDataX , zchar[0123456789
-    ] options1 @lengthOf( // c
-i8i8 ) `" ++ [233]%N ++ runes_of_ascii "` , @calculatedFrom(
-""" ++ [28040; 24687]%N ++ runes_of_ascii """ ) match u8x as _x	{
-//	t
-// packet A { u8 x, }
-""\" ++ [233]%N ++ runes_of_ascii """ :string_  ,
-10 :  Z9_, } , }
-")).
-Eval vm_compute in ("<<<M3977>>>" ++ check (runes_of_ascii "// trailing space 
-packet i64_ {
-    uint8 body,
-    @calculatedFrom(""\n"")
-    repeat BodyLength {
-        repeat crc len `" ++ [233]%N ++ runes_of_ascii "`,
-        As,
-        repeat char[] Header,
-    },
-    match T as T {
-        3 : repeatCount,
-    },
-    match tag as pack {
-        ""a	b"" : string_,
-    },
-    zchar[10] a1 ``,
-    @tag(3)
-    string int,
-}")).
-Eval vm_compute in ("<<<M3559>>>" ++ check (runes_of_ascii "options
-    {
-LittleEndian 
-=true;
-}packet
-    Logon
-{	u8  x
+	}
+    , 
+string	Acct
+,  uint16	price	,
+f32 OrderId	,
 
-    , }  packet
-
-Logout{
-u16 
-reason
-
-    , }	root
-    packet Frame
-    {  i32
-
-    Kind
+    u16
+x
 ,
-i32  Kind2,
-match  Kind as  Body
-	{
-1:
 
-Logon ,	[
+    u16
 
-    2 ,
-3 ,4  ]
-    :
-
-Logout ,100
-
-:Logon ,	}	, match
-Kind2
-
+    clOrdID
+	@lengthOf(  Body	)
+,match x 
 as
-    Trailer {	0 :
 
-    Logout
-, } ,
+Body	{ 
+178
 
-}
-")).
-Eval vm_compute in ("<<<M283>>>" ++ check (runes_of_ascii "root packet
-    i64_ {@tag(4294967296) match lengthOf as // " ++ [27880; 37322]%N ++ runes_of_ascii "
-charz	{ 1 :
-T , } ,repeat char[ 00]
-MetaDataX //x
+    :Logout ,	13 : Cancel
+
 ,
-match // @lengthOf(
-Foo as
-    chars{ // `tick` ""quote"" 'q'
-""" ++ [28040; 24687]%N ++ runes_of_ascii """:charz
-, } ,} root packet MetaDataX {
-@lengthOf( chars// " ++ [128512]%N ++ runes_of_ascii " emoji
-)
-uint16 Foo , Foo ,
-    } packet zchar { // trailing space 
-}")).
-Eval vm_compute in ("<<<M1510>>>" ++ check (runes_of_ascii "root packet Foo // " ++ [128512]%N ++ runes_of_ascii " emoji
-{ } options {
-    // a // b
-    tag // `tick` ""quote"" 'q'
-= //	t
-""""
-    ; u8x = zchar[0  ] }
-MetaData
-    int {zchar[ zchar[ 10]
-lengthOf	`` , i64 u8x`// not a comment` ,MetaDataX pack// `tick` ""quote"" 'q'
-`crlf
-line`
-, Logon charz `crlf
-line`
-    ,
-    // a // b
-    }
-")).
-Eval vm_compute in ("<<<M1530>>>" ++ check (runes_of_ascii "root packet Foo // " ++ [128512]%N ++ runes_of_ascii " emoji
-{ } options {
-    // a // b
-    tag // `tick` ""quote"" 'q'
-= //	t
-""""
-    ; u8x = zchar[0  ] }
-MetaData
-    int {zchar[ 10]
-lengthOf	`` `` , i64 u8x`// not a comment` ,MetaDataX pack// `tick` ""quote"" 'q'
-`crlf
-line`
-, Logon charz `crlf
-line`
-    ,
-    // a // b
-    }
-")).
-Eval vm_compute in ("<<<M4276>>>" ++ check (runes_of_ascii "MetaData
-	lengthOf {	float 
-rootA `
-`,
-i16 // " ++ [128512]%N ++ runes_of_ascii " emoji
-		x
-    , float32 msg_type
-, 
-lengthOf 
-	// a // b
-	// " ++ [27880; 37322]%N ++ runes_of_ascii "
+174:Reject
 
-u8x
-`" ++ [28040; 24687; 31867; 22411]%N ++ runes_of_ascii "`	,}options
-    {
-
-packetx =
-    3; 
-options1=zchar[
-
-255
-]	; Pad
-=false 
-;repeatCount
-    =42  // @lengthOf(
-    	;
-chars 
-      /// triple
-  // a // b
-  =
-' '
-;
+,  }
+,
+u16 Flags @calculatedFrom(""CR\
+C32""
+)	, 
 }
-
 ")).
-Eval vm_compute in ("<<<M1492>>>" ++ check (runes_of_ascii "root packet Foo // " ++ [128512]%N ++ runes_of_ascii " emoji
-{ } options {
-    // a // b
-    tag // `tick` ""quote"" 'q'
-= //	t
-""""
-    ; u8x = zchar[0  ] ,
-MetaData
-    int {zchar[ 10]
-lengthOf	`` , i64 u8x`// not a comment` ,MetaDataX pack// `tick` ""quote"" 'q'
-`crlf
-line`
-, Logon charz `crlf
-line`
-    ,
-    // a // b
-    }
-")).
-Eval vm_compute in ("<<<M1469>>>" ++ check (runes_of_ascii "root packet Foo // " ++ [128512]%N ++ runes_of_ascii " emoji
-{ } options {
-    // a // b
-    tag // `tick` ""quote"" 'q'
-= //	t
-""""
-    ; u8x  zchar[0  ] }
-MetaData
-    int {zchar[ 10]
-lengthOf	`` , i64 u8x`// not a comment` ,MetaDataX pack// `tick` ""quote"" 'q'
-`crlf
-line`
-, Logon charz `crlf
-line`
-    ,
-    // a // b
-    }
-")).
-Eval vm_compute in ("<<<M1539>>>" ++ check (runes_of_ascii "root packet Foo // " ++ [128512]%N ++ runes_of_ascii " emoji
-{ } options {
-    // a // b
-    tag // `tick` ""quote"" 'q'
-= //	t
-""""
-    ; u8x = zchar[0  ] }
-MetaData
-    int {zchar[ 10]
-lengthOf	`` ,  u8x`// not a comment` ,MetaDataX pack// `tick` ""quote"" 'q'
-`crlf
-line`
-, Logon charz `crlf
-line`
-    ,
-    // a // b
-    }
-")).
-Eval vm_compute in ("<<<M92>>>" ++ check (runes_of_ascii "root
-    packet packetx {	uint32
-x_y_z@calculatedFrom( """ ++ [233]%N ++ runes_of_ascii "t" ++ [233]%N ++ runes_of_ascii """ ) ,@calculatedFrom(
-    ""{,}"" // trailing space 
-)	float calculatedFrom
-`line1
-line2` ,u16 Packet @lengthOf( f32a ) ,
-char[] o `tab	here`, @calculatedFrom( ""x y""  )T {
-repeat i64 chars , } ,
-i16  roots	,
-} // @lengthOf(")).
-Eval vm_compute in ("<<<M4377>>>" ++ check (runes_of_ascii "options {
-    u128 = u32;
-    Z9_ = ""`tick`""
-    trueish = ""`tick`"";
-    // @lengthOf(
-    tag = '0'
-}
-
-options {
-    metadata = ""a	b"";
-    packetx = '\x00'// " ++ [128512]%N ++ runes_of_ascii " emoji
-}
-
-options {
-    charz = 65535
-}
-
-options {
-    msg_type = zchar[10];
-    asx = false
-    tag = char[];
-}")).
-Eval vm_compute in ("<<<M885>>>" ++ check (runes_of_ascii "packet//	t
-u8x{
-// `tick` ""quote"" 'q'
+Eval vm_compute in ("<<<M308>>>" ++ check (runes_of_ascii "root packet options1 //	t
+{ @lengthOf( Packet )
 //x
-Pad @lengthOf(
-    _x
-// " ++ [27880; 37322]%N ++ runes_of_ascii "
-/// triple
-)
+//	t
+repeat chars // " ++ [128512]%N ++ runes_of_ascii " emoji
+{ repeatCount
+u128 , match u as
+BodyLength/// triple
+{
+[ 65535 ] :
+// trailing space 
+//x
+packetx // a // b
 ,
-    //	t
-    }
-// `tick` ""quote"" 'q'
+3 :
+    zchar ,
+255: roots """ ++ [233]%N ++ runes_of_ascii "t" ++ [233]%N ++ runes_of_ascii """// c
+: Header}
+    , i64 Packet,	char[]	uint8x @calculatedFrom(
+""// no comment""  ) `crlf
+line`
+,
+    } , string
+trueish , @leftPad  (' '  )
+i8i8	{/// triple
+float64
+T @lengthOf( leftPad )
+    ,// @lengthOf(
+u128 `" ++ [233]%N ++ runes_of_ascii "`
+    , lengthOf, // a // b
+matchKey ,
+    },
+    repeat
+    char[1] MetaDataX	`a\`  ,
 // c
-packet body
-    { @rightPad ( '\x00'// `tick` ""quote"" 'q'
-) asx`it's`, }packet u128 { } packet stringy { @rightPad
-    ( ) chars, }
-")).
-Eval vm_compute in ("<<<M3560>>>" ++ check (runes_of_ascii "options {
-    LittleEndian = true;
-}
-packet Logon {
-    u8 x,
-    string user,
-}
-packet Logout {
-    u16 reason,
-}
-packet Empty {
-}
-root packet Frame {
-    u16 MsgType,
-    @lengthOf(Body) u8 BodyLen,
-    u8 flags,
-    Logon Body,
-    u32 trailer,
+// " ++ [128512]%N ++ runes_of_ascii " emoji
+@calculatedFrom( ""1"" )string chars
+    `it's` , char[] calculatedFrom
+    @lengthOf(
+    calculatedFrom) `doc`, rootA// @lengthOf(
+_x
+// `tick` ""quote"" 'q'
+/// triple
+`" ++ [28040; 24687; 31867; 22411]%N ++ runes_of_ascii "` , } MetaData calculatedFrom {  u tag `
+`,
 }
 ")).
-Eval vm_compute in ("<<<M3213>>>" ++ check (runes_of_ascii "packet Logon // c1a
+Eval vm_compute in ("<<<M230>>>" ++ check (runes_of_ascii "//x
+root packet Z9_ { @calculatedFrom( ""a\\"")zchar[ 1] // @lengthOf(
+a1 @lengthOf(
+Z9_) ,
+@tag( 0123456789
+    )@lengthOf(
+Header ) @tag( 4294967296 ) uint8 u128  ,i16 msg_type// trailing space 
+, tag matchKey, repeat i8 options1 `tab	here` , repeat /// triple
+f32a Z9_,
+/// triple
+//	t
+match tag as Foo { 42 : Logon ,
+    [ 4294967296
+    ] : Pad , 3 :a1 , [007	, 1 ]
+: a1 ,}
+    ,// packet A { u8 x, }
+repeat zchar { repeat //
+u8 options1 // c
+, leftPad
+{	msg_type ,
+} ,
+leftPad@lengthOf( string_
+)
+    `a\` ,
+    }, zchar charz , string tag @calculatedFrom(
+""{,}"")
+, // " ++ [27880; 37322]%N ++ runes_of_ascii "
+}
+    packet// @lengthOf(
+u128 {@tag(// " ++ [27880; 37322]%N ++ runes_of_ascii "
+4294967296 ) @tag( 42
+) f32a @lengthOf( float )
+    `" ++ [233]%N ++ runes_of_ascii "` ,	}
+")).
+Eval vm_compute in ("<<<M1176>>>" ++ check (runes_of_ascii "// top
+MetaData // c0
+x_y_z // c1a
   // c1b
+{ // c2
+char // c3a
+  // c3b
+body // c4
+, // c5a
+  // c5b
+f64 // c6
+i8i8 // c7a
+  // c7b
+`two words` // c8
+, // c9a
+  // c9b
+body // c10
+body `" ++ [28040; 24687; 31867; 22411]%N ++ runes_of_ascii "`
+    // c12
+, } // c14a
+  // c14b
+root packet chars // c17a
+  // c17b
+{
+    // c18
+@lengthOf( // c19a
+  // c19b
+i64_ // c20a
+  // c20b
+) chars , // c23a
+  // c23b
+i8i8
+    // c24
+{ // c25a
+  // c25b
+falsey
+    // c26
+@lengthOf( stringy ) // c29a
+  // c29b
+`doc` ,
+    // c31
+} // c32
+, x @lengthOf( // c35a
+  // c35b
+A // c36
+) // c37a
+  // c37b
+`crlf
+line`
+    // c38
+, } // c40a
+  // c40b
+")).
+Eval vm_compute in ("<<<M232>>>" ++ check (runes_of_ascii "packet
+    string_ { match charz as  len {
+7 : Pad
+    // @lengthOf(
+    } ,
+    match //	t
+i64_ as string_ { // @lengthOf(
+007:float [0 ]:Packet
+// `tick` ""quote"" 'q'
+//
+, 10 : leftPad
+,
+}
+,
+char[]
+// trailing space 
+// @lengthOf(
+roots, char[ 3 ] Header `it's` ,
+options1 @calculatedFrom( ""packet"" )`" ++ [233]%N ++ runes_of_ascii "`
+,
+BodyLength
+// @lengthOf(
+//x
+, repeat char[	65535 // " ++ [27880; 37322]%N ++ runes_of_ascii "
+]  body , char[ 42 ]
+// a // b
+// " ++ [128512]%N ++ runes_of_ascii " emoji
+Packet// packet A { u8 x, }
+`" ++ [233]%N ++ runes_of_ascii "`  , repeat/// triple
+f64 float	`it's`, packetx
+matchKey , }
+")).
+Eval vm_compute in ("<<<M1941>>>" ++ check (runes_of_ascii "
+// top
+
+	packet  
+  // c0
+	u128	// c1
+  {// c2
+
+	@lengthOf( 
+// c3
+
+  body// c4a
+    // c4b
+    )	// c5
+	match	// c6
+	x_y_z// c7
+      as
+	// c8
+
+	u // c9
+	{	// c10a
+	// c10b
+""x y"" :	// c12a
+  // c12b
+
+  i8i8
+, 	 // c14a
+
+	// c14b
+		}	// c15a
+  // c15b
+	  ,
+    // c16
+
+	@tag( 
+// c17
+    255 // c18
+		)
+// c19
+	char[]  // c20
+  	roots	// c21a
+  // c21b
+	@lengthOf( 
+int 
+    // c23
+)
+    // c24
+	  ,// c25
+	} // c26")).
+Eval vm_compute in ("<<<M1354>>>" ++ check (runes_of_ascii "// top
+packet // c0a
+  // c0b
+B // c1
 { // c2a
   // c2b
-@tag( 42 // c4
-) // c5
-@rightPad (
-    // c7
-' ' ) @leftPad
-    // c10
-( )
-    // c12
-repeat // c13
-trueish
-    // c14
-{
-    // c15
-string
-    // c16
-T
-    // c17
-, }
-    // c19
+u8 // c3
+a // c4a
+  // c4b
 ,
-    // c20
-} ")).
-Eval vm_compute in ("<<<M3567>>>" ++ check (runes_of_ascii "options{ roots =u8 f32a
-	=
-    '\x00'	BodyLength= """ ++ [28040; 24687]%N ++ runes_of_ascii """
-    }  MetaData// a // b
-	packetx
-
-{	i32	options1 ,
-
-    zchar[
-
-    1 
-]  u8x 	 // @lengthOf(
-	`doc`  ,
-	zchar[ 7	] matchKey 	 // " ++ [27880; 37322]%N ++ runes_of_ascii "
-
-,
-
-int8
-
-    As `crlf
-line` , 
-}")).
-Eval vm_compute in ("<<<M771>>>" ++ check (runes_of_ascii "packet Logon { @lengthOf( Pad
-    ) int{ match matchKey
-as
-Pad { ""CRC32"" :
-body
-,
-    }
-    ,  len
-    // `tick` ""quote"" 'q'
-    @lengthOf(// `tick` ""quote"" 'q'
-chars )
-    /// triple
-    , float
-@lengthOf( Foo ), } , }
-")).
-Eval vm_compute in ("<<<M2328>>>" ++ check (runes_of_ascii "MetaData Packet { }packet	asx  { @lengthOf( asx) falsey`crlf
-line`
-,
-    }
-    packet x	{uint32// @lengthOf(
-rootA	,u32 options1 `say ""hi""` @tag( @tag( 7
-    )// packet A { u8 x, }
-msg_type @lengthOf(
-stringy	)	, }
-
-")).
-Eval vm_compute in ("<<<M2287>>>" ++ check (runes_of_ascii "MetaData Packet { }packet	asx  { @lengthOf( asx) falsey`crlf
-line`
-,
-    }
-    packet {	x uint32// @lengthOf(
-rootA	,u32 options1 `say ""hi""` , @tag( 7
-    )// packet A { u8 x, }
-msg_type @lengthOf(
-stringy	)	, }
-
-")).
-Eval vm_compute in ("<<<M2292>>>" ++ check (runes_of_ascii "MetaData Packet { }packet	asx  { @lengthOf( asx) falsey`crlf
-line`
-,
-    }
-    packet x	uint32{// @lengthOf(
-rootA	,u32 options1 `say ""hi""` , @tag( 7
-    )// packet A { u8 x, }
-msg_type @lengthOf(
-stringy	)	, }
-
-")).
-Eval vm_compute in ("<<<M2335>>>" ++ check (runes_of_ascii "MetaData Packet { }packet	asx  { @lengthOf( asx) falsey`crlf
-line`
-,
-    }
-    packet x	{uint32// @lengthOf(
-rootA	,u32 options1 `say ""hi""` , @tag( 
-    )// packet A { u8 x, }
-msg_type @lengthOf(
-stringy	)	, }
-
-")).
-Eval vm_compute in ("<<<M2216>>>" ++ check (runes_of_ascii "MetaData  { }packet	asx  { @lengthOf( asx) falsey`crlf
-line`
-,
-    }
-    packet x	{uint32// @lengthOf(
-rootA	,u32 options1 `say ""hi""` , @tag( 7
-    )// packet A { u8 x, }
-msg_type @lengthOf(
-stringy	)	, }
-
-")).
-Eval vm_compute in ("<<<M2320>>>" ++ check (runes_of_ascii "MetaData Packet { }packet	asx  { @lengthOf( asx) falsey`crlf
-line`
-,
-    }
-    packet x	{uint32// @lengthOf(
-rootA	,u32 options1  , @tag( 7
-    )// packet A { u8 x, }
-msg_type @lengthOf(
-stringy	)	, }
-
-")).
-Eval vm_compute in ("<<<M1>>>" ++ check (runes_of_ascii "// c
-options {
-    lengthOf = false Logon =
-    false ;
-} MetaData lengthOf
-{ // " ++ [128512]%N ++ runes_of_ascii " emoji
-float32 i8i8, }
-root // `tick` ""quote"" 'q'
-packet roots
-{  zchar[
-7	] f32a
-    // trailing space 
-    , }
-")).
-Eval vm_compute in ("<<<M1352>>>" ++ check (runes_of_ascii "// packet A { u8 x, }
-MetaData T {
-rootA MetaDataX , rootA pack
-    // `tick` ""quote"" 'q'
-    ,
-    int8 zchar ,string trueish  `line1
-line2`	, u16 metadata `say ""hi""`
-, matchKey
-f32a ,  }
-")).
-Eval vm_compute in ("<<<M3960>>>" ++ check (runes_of_ascii "root
-packet
-    // c1
-
-  P 	 // c2
-    { u8 // c4
-s_u8	// c5
-
-  ,	// c6
-repeat	// c7
-		u8 	 // c8
-
-  r_u8
-, u16// c11
-
-b_len
-    // c12
-	  ,  // c13a
-
-// c13b
-
-	} 
-	    // c14
-")).
-Eval vm_compute in ("<<<M3391>>>" ++ check (runes_of_ascii "// top
-MetaData
-    // c0
-_x
-    // c1
-{
-    // c2
-zchar[
-    // c3
-4294967296
-    // c4
-]
     // c5
-lengthOf
-    // c6
-`// not a comment`
-    // c7
-,
-    // c8
-}
-    // c9
+} // c6
+root packet P // c9
+{ u8 // c11
+K // c12a
+  // c12b
+, // c13
+match
+    // c14
+K
+    // c15
+as Body // c17a
+  // c17b
+{
+    // c18
+1
+    // c19
+: B // c21
+, }
+    // c23
+, u16 // c25
+L @lengthOf( // c27a
+  // c27b
+Body // c28a
+  // c28b
+) // c29
+, // c30a
+  // c30b
+} // c31a
+  // c31b
 ")).
-Eval vm_compute in ("<<<M1548>>>" ++ check (runes_of_ascii "root packet Foo // " ++ [128512]%N ++ runes_of_ascii " emoji
-{ } options {
-    // a // b
-    tag // `tick` ""quote"" 'q'
-= //	t
-""""
-    ; u8x = zchar[0  ] }
-MetaData
-    int {zchar[ 10]
-lengthOf	`` , i64")).
-Eval vm_compute in ("<<<M1538>>>" ++ check (runes_of_ascii "root packet Foo // " ++ [128512]%N ++ runes_of_ascii " emoji
-{ } options {
-    // a // b
-    tag // `tick` ""quote"" 'q'
-= //	t
-""""
-    ; u8x = zchar[0  ] }
-MetaData
-    int {zchar[ 10]
-lengthOf	``")).
-Eval vm_compute in ("<<<M1248>>>" ++ check (runes_of_ascii "MetaData u128{ zchar asx
-    /// triple
-    , As chars`" ++ [28040; 24687; 31867; 22411]%N ++ runes_of_ascii "`,
-    char[]repeatCount
-    `doc` , u64 body , string Packet `say ""hi""` ,	body MetaDataX , }
-")).
-Eval vm_compute in ("<<<M93>>>" ++ check (runes_of_ascii "MetaData  falsey { i64
-    A // " ++ [27880; 37322]%N ++ runes_of_ascii "
-, string
-Header
-,	zchar[	10 ]
-Foo `" ++ [28040; 24687; 31867; 22411]%N ++ runes_of_ascii "`
-    // @lengthOf(
-    ,packetx
-    body, f32a  MetaDataX `it's`,  }
-")).
-Eval vm_compute in ("<<<M3946>>>" ++ check (runes_of_ascii "packet string_ {
-    metadata @lengthOf(T),
-    @lengthOf(x)
-    Logon @calculatedFrom(""""),
-    @calculatedFrom(""a	b"")
-    x_y_z `say ""hi""`,
-}")).
-Eval vm_compute in ("<<<M615>>>" ++ check (runes_of_ascii "root packet a1	{ repeat T`it's`	,@calculatedFrom( ""a\""b"" ) repeat char[]metadata , float64 roots `crlf
-line` ,f64 Logon `doc` , }
-// c
-")).
-Eval vm_compute in ("<<<M1721>>>" ++ check (runes_of_ascii "root @tag packet /// triple
-rootA {	i32
-MetaDataX@calculatedFrom( ""CRC32"" ) `line1
-line2` , } MetaData BodyLength {
-u8
-rootA, } // c")).
-Eval vm_compute in ("<<<M1673>>>" ++ check (runes_of_ascii "root packet /// triple
-rootA {	i32
-MetaDataX@calculatedFrom( ""CRC32"" ) `line1
-line2` , , } MetaData BodyLength {
-u8
-rootA, } // c")).
-Eval vm_compute in ("<<<M1664>>>" ++ check (runes_of_ascii "root packet /// triple
-rootA {	i32
-MetaDataX@calculatedFrom( ""CRC32"" `line1
-line2` ) , } MetaData BodyLength {
-u8
-rootA, } // c")).
-Eval vm_compute in ("<<<M3788>>>" ++ check (runes_of_ascii "packet  A
-    { match
-    k  as
-    n{ [
-""a""
-
-,	""bb""
-
-    ,	""c c"", ""d"" ,""e"" ,
-
-""f""
-
-    , ""g""	]
-:
-
-B  2 : C} 
-,
-
+Eval vm_compute in ("<<<M74>>>" ++ check (runes_of_ascii "// packet A { u8 x, }
+root packet
+charz {
+    matchKey { repeat
+    Foo { // trailing space 
+uint8 chars @lengthOf(	x
+    ) , } //
+, pack{rootA@lengthOf( MetaDataX// c
+) , } // a // b
+, roots{zchar[	10	]
+    leftPad ,
+    } ,	repeat pack
+stringy`two words` ,	}, } packet rootA {char[ 10 ]
+    x_y_z
+`{ , }` , uint64 falsey ,
+    // " ++ [27880; 37322]%N ++ runes_of_ascii "
     }
 ")).
-Eval vm_compute in ("<<<M1782>>>" ++ check (runes_of_ascii "packet packet
-    Pad // a // b
-{ i8i8 @calculatedFrom( ""a	b"") `u8 x,` ,
-} options{ float// " ++ [128512]%N ++ runes_of_ascii " emoji
-= f64 i64_
-=//	t
-00 }
+Eval vm_compute in ("<<<M329>>>" ++ check (runes_of_ascii "
+options{MetaDataX =
+    char }packet packetx {match // packet A { u8 x, }
+string_
+    as trueish {""a\""b"" : crc // trailing space 
+,
+1 : calculatedFrom [
+1 ]  : u8x	, }
+, }options {}
+    MetaData Z9_
+    // " ++ [128512]%N ++ runes_of_ascii " emoji
+    {
+    string MetaDataX `` // trailing space 
+, }options{ o= '\x00';// trailing space 
+}")).
+Eval vm_compute in ("<<<M1582>>>" ++ check (runes_of_ascii "packet T {
+}
+
+packet string_ {
+    @tag(7)
+    repeat uint8 rootA,
+    @lengthOf(o)
+    float u,// trailing space 
+    Packet @calculatedFrom(""a\\""),
+    f32 repeatCount `say ""hi""`,
+}
+
+packet MetaDataX {
+    match leftPad as Packet {
+        007 : x,
+    },// trailing space 
+}")).
+Eval vm_compute in ("<<<M1748>>>" ++ check (runes_of_ascii "// top
+options {
+    // c1
+    LittleEndian = true;
+}
+
+// c6
+packet B {
+    // c9a
+    // c9b
+    u8 a,// c12
+    string s,// c15a
+    // c15b
+}// c16a
+
+// c16b
+root packet P {
+    u16 L @lengthOf(B),
+    // c26
+    B,// c28
+    u8 t,// c31
+}")).
+Eval vm_compute in ("<<<M1417>>>" ++ check (runes_of_ascii "packet
+Logon { string
+user
+	,
+
+    }
+
+    root
+packet
+Frame
+
+{
+u8	K 
+,
+	match
+K	as  Body{
+
+    1
+	:Logon  ,2 
+:  Logout
+
+,
+}
+
+, 
+Tail,}
+	packet
+	Logout	{
+    u16
+    reason,
+    }
+packet Tail	{
+
+u32
+
+    crc
+
+, } ")).
+Eval vm_compute in ("<<<M424>>>" ++ check (runes_of_ascii "options
+{
+matchKey = 42/// triple
+x=char[] ;
+// packet A { u8 x, }
+//
+charz
+=
+// packet A { u8 x, }
+// trailing space 
+true  ; } MetaData BodyLength
+{
+uint8
+pack,zchar[ 1]float ,  float32 x_y_z `` ,u32
+_x,i16 body  , }
 ")).
-Eval vm_compute in ("<<<M4357>>>" ++ check (runes_of_ascii "packet Logon {
+Eval vm_compute in ("<<<M584>>>" ++ check (runes_of_ascii "options
+{
+matchKey = 42/// triple
+x='0' ;
+// packet A { u8 x, }
+//
+charz
+=
+// packet A { u8 x, }
+// trailing space 
+true  ; } MetaData BodyLength
+{
+uint8
+pack,zchar[ 1]float ,  float32 x_y_z `` ,u32
+_x,i16 caf" ++ [233]%N ++ runes_of_ascii "_1  , }
+")).
+Eval vm_compute in ("<<<M448>>>" ++ check (runes_of_ascii "options
+{
+matchKey = 42/// triple
+x='0' ;
+// packet A { u8 x, }
+//
+charz
+=
+// packet A { u8 x, }
+// trailing space 
+true  } ; MetaData BodyLength
+{
+uint8
+pack,zchar[ 1]float ,  float32 x_y_z `` ,u32
+_x,i16 body  , }
+")).
+Eval vm_compute in ("<<<M466>>>" ++ check (runes_of_ascii "options
+{
+matchKey = 42/// triple
+x='0' ;
+// packet A { u8 x, }
+//
+charz
+=
+// packet A { u8 x, }
+// trailing space 
+true  ; } MetaData BodyLength
+
+uint8
+pack,zchar[ 1]float ,  float32 x_y_z `` ,u32
+_x,i16 body  , }
+")).
+Eval vm_compute in ("<<<M1402>>>" ++ check (runes_of_ascii "
+
+  options	{	FixedStringPadChar
+
+    = '0';
+	}packet
+    Q
+{  zchar[
+
+4	]	z
+
+    , @rightPad
+(
+'\x00'
+
+)
+
+char[3] n,char[ 
+5  ]
+
+d
+	, }root	packet
+R
+    { Q
+    ,
+zchar[
+8  ]top
+	,	repeat 
+zchar[
+2 
+] zs,
+	}")).
+Eval vm_compute in ("<<<M535>>>" ++ check (runes_of_ascii "options
+{
+matchKey = 42/// triple
+x='0' ;
+// packet A { u8 x, }
+//
+charz
+=
+// packet A { u8 x, }
+// trailing space 
+true  ; } MetaData BodyLength
+{
+uint8
+pack,zchar[ 1]float ,  float32 x_y_z `` ,")).
+Eval vm_compute in ("<<<M686>>>" ++ check (runes_of_ascii "// c
+packet i64_ {	char[] calculatedFrom , } packet
+trueish  {@calculatedFrom(
+""a\\"" ) o { i32 falsey@lengthOf( uint8x ),
+} packet } // `tick` ""quote"" 'q'
+options {// c
+Z9_ = ' '//
+}
+")).
+Eval vm_compute in ("<<<M676>>>" ++ check (runes_of_ascii "// c
+packet i64_ {	char[] calculatedFrom , } packet
+trueish  @calculatedFrom({
+""a\\"" ) o { i32 falsey@lengthOf( uint8x ),
+} , } // `tick` ""quote"" 'q'
+options {// c
+Z9_ = ' '//
+}
+")).
+Eval vm_compute in ("<<<M661>>>" ++ check (runes_of_ascii "// c
+packet i64_ {	char[] calculatedFrom , } packet
+trueish  {@calculatedFrom(
+""a\\"" ) o { i32 falsey@lengthOf( uint8x ),
+} , } // `tick` ""quote"" 'q'
+options {// c
+Z9_ = ' '")).
+Eval vm_compute in ("<<<M1705>>>" ++ check (runes_of_ascii "
+// top
+      root 	 // c0
+packet  P  
+      // c2
+    {	// c3
+	repeat
+
+// c4
+
+char cs
+// c6
+,
+
+    u8 
+x	// c9a
+		// c9b
+,// c10a
+// c10b
+	}  
+  // c11
+")).
+Eval vm_compute in ("<<<M102>>>" ++ check (runes_of_ascii "packet u128
+{ i64 A `{ , }`
+,
+    } MetaData
+    i64_ {
+trueish
+Z9_ ,
+// " ++ [128512]%N ++ runes_of_ascii " emoji
+// `tick` ""quote"" 'q'
+} options { metadata = i16 ; charz=
+false}
+")).
+Eval vm_compute in ("<<<M1777>>>" ++ check (runes_of_ascii "packet A {
+    match k as n {
+        [
+            ""a"", 22, ""c c"", 4, ""e"",
+            66, ""g"", 8
+        ] : B,
+        2 : C,
+    },
+}")).
+Eval vm_compute in ("<<<M70>>>" ++ check (runes_of_ascii "MetaData f32a{uint8 // a // b
+repeatCount, x_y_z i8i8, f32 msg_type , charz
+lengthOf `tab	here`, char[	7
+    ]chars,float  x ,
+}
+")).
+Eval vm_compute in ("<<<M936>>>" ++ check (runes_of_ascii "packet A {
+    u16 len @lengthOf(body) `a
+    b
+  c`,
+    u32 crc @calculatedFrom(""CRC32"") `a
+    b
+  c`,
+    string body,
+}")).
+Eval vm_compute in ("<<<M2034>>>" ++ check (runes_of_ascii "packet
+    Logon {
+    @tag( 42	)@rightPad	( 
+	    // c
+' '
+	) 
+@leftPad
+
+( 
+)
+
+repeat 
+trueish  { string 
+T 
+,} 
+,
+} ")).
+Eval vm_compute in ("<<<M1944>>>" ++ check (runes_of_ascii "packet Logon {
     @tag(42)
     @rightPad(' ')
     @leftPad()
     repeat trueish {
         string T,
-        // c
     },
-}")).
-Eval vm_compute in ("<<<M1170>>>" ++ check (runes_of_ascii "options
-{// c
-stringy= ""1"" ;float = i64; // a // b
-calculatedFrom
-=
-    ""it's"" ; // c
-Z9_=""// no comment"" ; // " ++ [27880; 37322]%N ++ runes_of_ascii "
-}
-")).
-Eval vm_compute in ("<<<M1886>>>" ++ check (runes_of_ascii "packet
-    Pad // a // b
-{ i8i8 @calculated<From( ""a	b"") `u8 x,` ,
-} options{ float// " ++ [128512]%N ++ runes_of_ascii " emoji
-= f64 i64_
-=//	t
-00 }
-")).
-Eval vm_compute in ("<<<M1848>>>" ++ check (runes_of_ascii "packet
-    Pad // a // b
-{ i8i8 @calculatedFrom( ""a	b"") `u8 x,` ,
-} options{ float// " ++ [128512]%N ++ runes_of_ascii " emoji
-{ f64 i64_
-=//	t
-00 }
-")).
-Eval vm_compute in ("<<<M254>>>" ++ check (runes_of_ascii "options { i8i8= char[]
-    ; } packet
-MetaDataX{ @calculatedFrom( ""x y"" )int32 T `" ++ [28040; 24687; 31867; 22411]%N ++ runes_of_ascii "` ,
-    f64 matchKey
-    , }")).
-Eval vm_compute in ("<<<M4412>>>" ++ check (runes_of_ascii "
-packet
-    A {
-    match
-k
-    as
-n  { [ ""a"" ,
-""bb""
-,
-007
-	, ""d""	,  ""e""
-    ] : B
-,
-    2
-    :
-C  }
-
-,
-	}")).
-Eval vm_compute in ("<<<M1830>>>" ++ check (runes_of_ascii "packet
-    Pad // a // b
-{ i8i8 @calculatedFrom( ""a	b"") `u8 x,` ,
-} { float// " ++ [128512]%N ++ runes_of_ascii " emoji
-= f64 i64_
-=//	t
-00 }
-")).
-Eval vm_compute in ("<<<M3047>>>" ++ check (runes_of_ascii "packet A {
-    Inner {
-        u8 x `tab
-	x`,
-        Deep {
-            u8 y `tab
-	x`,
-        },
-    },
-}")).
-Eval vm_compute in ("<<<M3338>>>" ++ check (runes_of_ascii "
-// c
-packet calculatedFrom { @tag( 4294967296 ) u msg_type , char[ 3 ] crc @lengthOf( len ) `u8 x,` , }")).
-Eval vm_compute in ("<<<M3355>>>" ++ check (runes_of_ascii "packet calculatedFrom { @tag( 4294967296 ) u msg_type , // c
-char[ 3 ] crc @lengthOf( len ) `u8 x,` , }")).
-Eval vm_compute in ("<<<M3755>>>" ++ check (runes_of_ascii "packet calculatedFrom {
-    @tag(4294967296)
-    u msg_type,
-    char[3] crc @lengthOf(len) `u8 x,`,
-}")).
-Eval vm_compute in ("<<<M854>>>" ++ check (runes_of_ascii "
-options{ x = ' '
-    }
-packet
-//	t
-//x
-matchKey
-    { zchar[ 7 ]o  @calculatedFrom(""it's"" ) ,
-}
-")).
-Eval vm_compute in ("<<<M3601>>>" ++ check (runes_of_ascii "options {
-}
-
-packet u128 {
-    repeat uint8x x `say ""hi""`,// trailing space 
-}
-
-MetaData crc {
-}")).
-Eval vm_compute in ("<<<M3231>>>" ++ check (runes_of_ascii "packet Logon { @tag( 42 ) @rightPad (
-// c
-' ' ) @leftPad ( ) repeat trueish { string T , } , }")).
-Eval vm_compute in ("<<<M878>>>" ++ check (runes_of_ascii "options {  chars = 10  MetaDataX= 3 ;Header
-    =//x
-zchar[ 7 ]x_y_z = """";
-    i64_ =' ' ; }
-
-")).
-Eval vm_compute in ("<<<M4152>>>" ++ check (runes_of_ascii "packet A {
-    Logon {
-        repeat char[42] falsey `a\`,
-        repeat int32 T,
-    },
-}")).
-Eval vm_compute in ("<<<M1961>>>" ++ check (runes_of_ascii "@leftPad
-packet crc
-    { f32a @calculatedFrom( """ ++ [233]%N ++ runes_of_ascii "t" ++ [233]%N ++ runes_of_ascii """ )
-    `say ""hi""`, lengthOf `` ,  }")).
-Eval vm_compute in ("<<<M2017>>>" ++ check (runes_of_ascii "root
-packet crc
-    { f32a @calculatedFrom( """ ++ [233]%N ++ runes_of_ascii "t" ++ [233]%N ++ runes_of_ascii """ )
-    `say ""hi""`, lengthOf `` , ,  }")).
-Eval vm_compute in ("<<<M2043>>>" ++ check (runes_of_ascii "root
-packet crc
-    { f32a @calculatedFrom( """ ++ [233]%N ++ runes_of_ascii "t" ++ [233]%N ++ runes_of_ascii """ )
-    \`say ""hi""`, lengthOf `` ,  }")).
-Eval vm_compute in ("<<<M3638>>>" ++ check (runes_of_ascii "options {
-    LittleEndian = true;
-}
-
-root packet P {
-    repeat char cs,
-    u8 x,
-}")).
-Eval vm_compute in ("<<<M3939>>>" ++ check (runes_of_ascii "packet
-
-    A{
-	match
-
-    k as
-n
-    {
-
-    1  :B
-    ,
     // c
-}  ,
-}
-")).
-Eval vm_compute in ("<<<M3298>>>" ++ check (runes_of_ascii "packet o { // c
-@tag( 42 ) repeat x { char[ 0123456789 ] i64_ , } , } options { }")).
-Eval vm_compute in ("<<<M3330>>>" ++ check (runes_of_ascii "packet o { @tag( 42 ) repeat x { char[ 0123456789 ] i64_ , } , } options { // c
 }")).
-Eval vm_compute in ("<<<M2919>>>" ++ check (runes_of_ascii "packet A {
+Eval vm_compute in ("<<<M590>>>" ++ check (runes_of_ascii "uint16
+    // trailing space 
+    matchKey
+{ u64 chars // a // b
+,char[] lengthOf `// not a comment`
+    , //	t
+}")).
+Eval vm_compute in ("<<<M893>>>" ++ check (runes_of_ascii "packet A {
   match k as n {
-    [1, 22, ""c c"", 4, 5, ""f""] : B,
+    [""a"", ""bb"", ""c c"", ""d"", ""e"", ""f"", ""g"", ""h"", ""i"", ""j"", ""k""] : B
     2 : C
   },
 }")).
-Eval vm_compute in ("<<<M3840>>>" ++ check (runes_of_ascii "packet A { match
-
-k as
-
-    n	{  [ 
-1] 
-:
-
-    B
-,2 
-:
-    C
-	}
-,
-    }
-")).
-Eval vm_compute in ("<<<M682>>>" ++ check (runes_of_ascii "packet trueish
-    //x
-    { @calculatedFrom( ""abc""
-) body `tab	here`	, }
-")).
-Eval vm_compute in ("<<<M2874>>>" ++ check (runes_of_ascii "packet A {
+Eval vm_compute in ("<<<M1638>>>" ++ check (runes_of_ascii "options {
+    msg_type = 00
+    string_ = 0
+    x = zchar[255];
+    leftPad = false;
+    f32a = 007;// " ++ [27880; 37322]%N ++ runes_of_ascii "
+}")).
+Eval vm_compute in ("<<<M1254>>>" ++ check (runes_of_ascii "packet
+// c
+calculatedFrom { @tag( 4294967296 ) u msg_type , char[ 3 ] crc @lengthOf( len ) `u8 x,` , }")).
+Eval vm_compute in ("<<<M1286>>>" ++ check (runes_of_ascii "packet calculatedFrom { @tag( 4294967296 ) u msg_type , char[ 3 ] crc @lengthOf( len ) `u8 x,`
+// c
+, }")).
+Eval vm_compute in ("<<<M898>>>" ++ check (runes_of_ascii "packet A {
   match k as n {
-    [""a"", ""bb"", ""c c""] : B,
+    [1, 22, ""c c"", 4, 5, ""f"", 7, 8, ""i"", 10, 11] : B,
     2 : C
   },
 }")).
-Eval vm_compute in ("<<<M2878>>>" ++ check (runes_of_ascii "packet A {
+Eval vm_compute in ("<<<M1132>>>" ++ check (runes_of_ascii "packet Logon // c
+{ @tag( 42 ) @rightPad ( ' ' ) @leftPad ( ) repeat trueish { string T , } , }")).
+Eval vm_compute in ("<<<M1164>>>" ++ check (runes_of_ascii "packet Logon { @tag( 42 ) @rightPad ( ' ' ) @leftPad ( ) repeat trueish { string T // c
+, } , }")).
+Eval vm_compute in ("<<<M271>>>" ++ check (runes_of_ascii "packet BodyLength { @tag(	007
+)
+char[ 65535
+]
+    string_
+`u8 x,`,
+    // @lengthOf(
+    }")).
+Eval vm_compute in ("<<<M1808>>>" ++ check (runes_of_ascii "options {
+    Packet = zchar[3]
+    u128 = zchar[42]
+    a1 = '\x00';
+    crc = 0;//	t
+}")).
+Eval vm_compute in ("<<<M1630>>>" ++ check (runes_of_ascii "packet A {
+    B b `x
+        `,
+    B `x
+        `,
+    repeat B bs `x
+        `,
+}")).
+Eval vm_compute in ("<<<M1215>>>" ++ check (runes_of_ascii "packet o { @tag(
+// c
+42 ) repeat x { char[ 0123456789 ] i64_ , } , } options { }")).
+Eval vm_compute in ("<<<M1596>>>" ++ check (runes_of_ascii "MetaData Z9_ {
+    //	t
+    // " ++ [27880; 37322]%N ++ runes_of_ascii "
+    u128 Foo,
+    lengthOf uint8x `say ""hi""`,
+}")).
+Eval vm_compute in ("<<<M839>>>" ++ check (runes_of_ascii "packet A {
   match k as n {
-    [""a"", 22, ""c c""] : B,
+    [1, 22, 007, 4, 5, 66, 7] : B
     2 : C
   },
 }")).
-Eval vm_compute in ("<<<M1981>>>" ++ check (runes_of_ascii "root
-packet crc
-    { f32a  """ ++ [233]%N ++ runes_of_ascii "t" ++ [233]%N ++ runes_of_ascii """ )
-    `say ""hi""`, lengthOf `` ,  }")).
-Eval vm_compute in ("<<<M2886>>>" ++ check (runes_of_ascii "packet A {
+Eval vm_compute in ("<<<M820>>>" ++ check (runes_of_ascii "packet A {
   match k as n {
-    [1, 22, 007, 4] : B
+    [1, 22, ""c c"", 4, 5] : B,
     2 : C
   },
 }")).
-Eval vm_compute in ("<<<M2178>>>" ++ check (runes_of_ascii "root
-    // `tick` ""quote"" 'q'
-    packet As { trueish , Packet }
+Eval vm_compute in ("<<<M1327>>>" ++ check (runes_of_ascii "MetaData _x { zchar[ 4294967296 ] lengthOf `// not a comment` , } // c
 ")).
-Eval vm_compute in ("<<<M1824>>>" ++ check (runes_of_ascii "packet
-    Pad // a // b
-{ i8i8 @calculatedFrom( ""a	b"") `u8 x,`")).
-Eval vm_compute in ("<<<M2797>>>" ++ check (runes_of_ascii "match 1 char uint64 uint64 @tag( int64 `" ++ [28040; 24687; 31867; 22411]%N ++ runes_of_ascii "` options , uint64")).
-Eval vm_compute in ("<<<M3420>>>" ++ check (runes_of_ascii "root  packet
-
-    P
-
-    {
-repeat
-char cs  ,
-u8
-x  ,
-} ")).
-Eval vm_compute in ("<<<M4047>>>" ++ check (runes_of_ascii "
-
-  options
-
-    {a
-    =""x\
-y"" ;	b
-=
-
-    ""x\
-y"" 
-}
-")).
-Eval vm_compute in ("<<<M1379>>>" ++ check (runes_of_ascii "// " ++ [128512]%N ++ runes_of_ascii " emoji
-MetaData u {int	Foo, f32a stringy `doc`,
-} 	 ")).
-Eval vm_compute in ("<<<M1905>>>" ++ check (runes_of_ascii "
-packet	As  @calculatedFrom(//x
-""{,}""	)lengthOf , } 	 ")).
-Eval vm_compute in ("<<<M377>>>" ++ check (runes_of_ascii "// " ++ [27880; 37322]%N ++ runes_of_ascii "
-MetaData u128 {  char[
-    3 ] f32a `doc` , }")).
-Eval vm_compute in ("<<<M4182>>>" ++ check (runes_of_ascii "options
+Eval vm_compute in ("<<<M793>>>" ++ check (runes_of_ascii "packet A {
+  match k as n {
+    [""a"", 22, ""c c""] : B
+    2 : C
+  },
+}")).
+Eval vm_compute in ("<<<M1988>>>" ++ check (runes_of_ascii "packet A{ Inner	{match
+k
+    as n
 {
-
-    stringy
-	= ' '	/// triple
-	;
-
+	[ 1]	:  B
+, }
+, 
 }
-
+    ,}
 ")).
-Eval vm_compute in ("<<<M2402>>>" ++ check (runes_of_ascii "MetaData {
-A
-i64
-chars	, } // `tick` ""quote"" 'q'")).
-Eval vm_compute in ("<<<M3379>>>" ++ check (runes_of_ascii "// top
-packet
-    // c0
-lengthOf {
-    // c2
-} ")).
-Eval vm_compute in ("<<<M1740>>>" ++ check (runes_of_ascii "{ options }options {  } // `tick` ""quote"" 'q'")).
-Eval vm_compute in ("<<<M4291>>>" ++ check (runes_of_ascii "
-
-  MetaData
-
-packetx 
-{_x
-metadata ,
-    }
+Eval vm_compute in ("<<<M133>>>" ++ check (runes_of_ascii "packet string_ // `tick` ""quote"" 'q'
+{ u
+//
+// " ++ [128512]%N ++ runes_of_ascii " emoji
+, }
 ")).
-Eval vm_compute in ("<<<M2131>>>" ++ check (runes_of_ascii "MetaData x
-{// " ++ [128512]%N ++ runes_of_ascii " emoji
-i16 stringy , char[")).
-Eval vm_compute in ("<<<M838>>>" ++ check (runes_of_ascii "MetaData
-zchar {_x
-T
-    , } options {}")).
-Eval vm_compute in ("<<<M3198>>>" ++ check (runes_of_ascii "MetaData zchar { zchar[ 3 // c
-] Pad , }")).
-Eval vm_compute in ("<<<M3573>>>" ++ check (runes_of_ascii "root packet Pad {
-    zchar[7] float,
+Eval vm_compute in ("<<<M175>>>" ++ check (runes_of_ascii "packet
+    A {
+//	t
+/// triple
+repeat
+char[] _x ,  }
+")).
+Eval vm_compute in ("<<<M1865>>>" ++ check (runes_of_ascii "packet A {
+    u16 len @lengthOf(body) `d`,
 }")).
-Eval vm_compute in ("<<<M311>>>" ++ check (runes_of_ascii "MetaData x_y_z { string options1 , }
-")).
-Eval vm_compute in ("<<<M2765>>>" ++ check (runes_of_ascii "@tag( options options [ : char[] i64")).
-Eval vm_compute in ("<<<M2772>>>" ++ check (runes_of_ascii "uint16 char uint16 ' ' root string")).
-Eval vm_compute in ("<<<M2654>>>" ++ check (runes_of_ascii "options { a = 1; b = 2 c = 3;; }")).
-Eval vm_compute in ("<<<M328>>>" ++ check (runes_of_ascii "root packet roots
-//x
-// " ++ [27880; 37322]%N ++ runes_of_ascii "
-{}")).
-Eval vm_compute in ("<<<M3161>>>" ++ check (runes_of_ascii "MetaData M {
-}// c
-packet A {}")).
-Eval vm_compute in ("<<<M2648>>>" ++ check (runes_of_ascii "MetaData M { @tag(1) u8 x, }")).
-Eval vm_compute in ("<<<M3038>>>" ++ check (runes_of_ascii "packet A {
+Eval vm_compute in ("<<<M1107>>>" ++ check (runes_of_ascii "MetaData zchar
+// c
+{ zchar[ 3 ] Pad , }")).
+Eval vm_compute in ("<<<M1629>>>" ++ check (runes_of_ascii "packet A {
+    u8 x `a
+    
+    b`,
+}")).
+Eval vm_compute in ("<<<M957>>>" ++ check (runes_of_ascii "root packet A {
     u8 x `
 x`,
 }")).
-Eval vm_compute in ("<<<M3951>>>" ++ check (runes_of_ascii "options {
-    int = i16;
+Eval vm_compute in ("<<<M1002>>>" ++ check (runes_of_ascii "packet A {
+ u8 x `d" ++ [8192]%N ++ runes_of_ascii "`, // c" ++ [8192]%N ++ runes_of_ascii "
 }")).
-Eval vm_compute in ("<<<M4213>>>" ++ check (runes_of_ascii "options {
-    i64_ = 00
-}")).
-Eval vm_compute in ("<<<M3279>>>" ++ check (runes_of_ascii "options { u8x = 3 // c
-}")).
-Eval vm_compute in ("<<<M4160>>>" ++ check (runes_of_ascii "// c 	
-	packet 
-A {
+Eval vm_compute in ("<<<M1605>>>" ++ check (runes_of_ascii "packet
 
-}")).
-Eval vm_compute in ("<<<M1301>>>" ++ check (runes_of_ascii "packet len {
-    } 	 ")).
-Eval vm_compute in ("<<<M2066>>>" ++ check (runes_of_ascii "MetaData A { u64 , }")).
-Eval vm_compute in ("<<<M2849>>>" ++ check (runes_of_ascii "y+" ++ [65533; 65533; 65533]%N ++ runes_of_ascii "Y65x" ++ [1125; 65533; 65533; 0; 65533; 223]%N ++ runes_of_ascii "Q	" ++ [7; 65533]%N)).
-Eval vm_compute in ("<<<M2854>>>" ++ check (runes_of_ascii "8Fa/Ek?q4_g4W,XqgA")).
-Eval vm_compute in ("<<<M3141>>>" ++ check (runes_of_ascii "packet A {
-}
-// c" ++ [6158]%N)).
-Eval vm_compute in ("<<<M3089>>>" ++ check (runes_of_ascii "packet A {
-}// c" ++ [8202]%N)).
-Eval vm_compute in ("<<<M1016>>>" ++ check (runes_of_ascii "
-MetaData As{
-}")).
-Eval vm_compute in ("<<<M717>>>" ++ check (runes_of_ascii "
-options { }
+    A {} 	 // c" ++ [8202]%N ++ runes_of_ascii "
 ")).
-Eval vm_compute in ("<<<M233>>>" ++ check (runes_of_ascii " // a // b")).
-Eval vm_compute in ("<<<M2502>>>" ++ check (runes_of_ascii "// ab
-c")).
-Eval vm_compute in ("<<<M2454>>>" ++ check (runes_of_ascii "option")).
-Eval vm_compute in ("<<<M2508>>>" ++ check (runes_of_ascii """a\""""")).
-Eval vm_compute in ("<<<M1418>>>" ++ check (runes_of_ascii "root")).
-Eval vm_compute in ("<<<M2469>>>" ++ check (runes_of_ascii "' '")).
-Eval vm_compute in ("<<<M2473>>>" ++ check (runes_of_ascii "''")).
-Eval vm_compute in ("<<<M2674>>>" ++ check (runes_of_ascii ",")).
+Eval vm_compute in ("<<<M1294>>>" ++ check (runes_of_ascii "// c
+packet lengthOf { }")).
+Eval vm_compute in ("<<<M1664>>>" ++ check (runes_of_ascii "
+
+  packet
+	A
+
+{
+	} ")).
+Eval vm_compute in ("<<<M1016>>>" ++ check (runes_of_ascii "// c" ++ [8233]%N ++ runes_of_ascii "
+packet A {
+}")).
+Eval vm_compute in ("<<<M1008>>>" ++ check (runes_of_ascii "packet A {
+}// c" ++ [8232]%N)).
+Eval vm_compute in ("<<<M1587>>>" ++ check (runes_of_ascii "options {
+}")).
+Eval vm_compute in ("<<<M1044>>>" ++ check (runes_of_ascii "// c" ++ [8203]%N)).
